@@ -12,7 +12,8 @@ asks the kernel to reduce `Decidable.decide p` to `true` by unfolding the model 
 definitions the theorems of lean/ICG/Props are about; neither compiled code nor the interpreter takes part,
 and `#print axioms` of every statement shows ⊆ {propext, Classical.choice, Quot.sound}.
 
-Supported protocol lines (grammar: lean/ICG/Driver/{Tab,Bits,Shp}.lean):
+Supported protocol lines (grammar: lean/ICG/Driver/<Domain>.lean; Lean glue: lean/ICG/KernelCheck/<Domain>.lean, one
+module per domain, `Generated.lean` imports exactly the modules its statements need):
   tab   new set unset reveal unreveal setlo sethi setvalues setknown bounds compute spec dump known getvalue
         getvalues getknown getknowns full copy neg drop        (add / eq involve two objects: the target of `add`
         is picked up again at its next dump, `eq` is skipped)
@@ -21,9 +22,28 @@ Supported protocol lines (grammar: lean/ICG/Driver/{Tab,Bits,Shp}.lean):
         answer line in between (ok / err:kind / getter results / the dump).
   bits  every operation of Driver/Bits.lean
   shp   every operation of Driver/Shp.lean
-Rationals: inputs become Lean `Rat` literals (`7/2`, `-3/4`), observed outputs become pairs (numerator,
-denominator) compared with `(r.num, r.den)` of the model's result, so an un-normalised or differently signed
-fraction printed by the compiled code is a mismatch, too.
+  norm  every operation of Driver/Norm.lean (icg icgpart closed graph gtable denorm gdenorm, optional rtol)       stateless
+  store C19: reset save lookup names dump — a segment of one store id: from `reset` (or from the store its previous
+        `dump` printed) through every line up to and including the next `dump`;   C20: crash (one statement per line)
+  srch  seqs chunks expl stack best meta greedy evalone pooldraws — one statement per answered line, carrying the whole
+        history (`gt new`, every `gt put`) of the gap table it names
+  gen   every operation of Driver/Gen.lean                                                                         stateless
+  env   every operation of Driver/Env.lean — a segment of one name (environment slot + oracle table): from nothing
+        (never used / after `drop`) or from a state the driver has shown completely (`new` arguments, `info` answer,
+        hidden game of the last new / reset / linreset, oracle lines so far, `snap` answer) through every line up to and
+        including the next `snap`; oracle lines are part of the segment
+  rgt   cup metaids pidmap (single statements); new info ranks table metaid strategy strategyc avg iter regret cumstrat
+        saveload — a segment of one object: from nothing, or from `RM.load` of the `new` / `saveload` arguments with the
+        regret / strategy the last `regret` / `cumstrat` printed and the iteration count (`info` + `iter`s answered ok)
+  codec every operation of Driver/Codec.lean; JSON / Python trees are compared as the token sequence the driver prints stateless
+Rationals: inputs become Lean `Rat` terms (`7/2`, `-3/4` in tab / bits / shp; `mkRat 7 2`, the driver's own constructor,
+in the other domains — thousands of `p/q` in one statement make the elaborator quadratic), observed outputs become
+pairs (numerator, denominator) compared with `(r.num, r.den)` of the model's result, so an un-normalised or differently
+signed fraction printed by the compiled code is a mismatch, too.
+Strings (store / codec tokens): short ones are literals; ASCII strings of 24 characters or more are written
+`KC.strC [(len, 0x…), …]` (KernelCheck/Str.lean: the same `String`, built from its bytes) because the kernel's
+unfolding of a long literal is quadratic.  What the kernel can do with strings bounds the `store crash` lines that
+become statements (`MAX_STRING_COST`): about 0.35 ms per character and traversal.
 
 API:  statements_from_batches(batches) -> list[str];  check(batches, max_statements=40, timeout=600) -> dict.
 `python harness/kernelcheck.py` runs a self-test (see `main`).
@@ -57,7 +77,8 @@ ERR_KINDS = {"err:assert": "assert", "err:value": "value", "err:index": "index",
 # statement kind and size in `by_kind`).  n = 6 bound computations are feasible too (sa 11 s, sac 16 s, sam:1 37 s and
 # 2–3 GB of memory per statement): raise the three `tab.compute.*` entries to 6 to include them.
 MAX_N = {"tab.compute.sa": 5, "tab.compute.sac": 5, "tab.compute.sam": 5, "tab.spec": 4, "tab": 5,
-         "bits": 6, "bits.struct": 6, "bits.pred": 5, "shp": 6, "shp.expl": 5}
+         "bits": 6, "bits.struct": 6, "bits.pred": 5, "shp": 6, "shp.expl": 5,
+         "norm": 6, "srch": 5, "env": 6, "rgt": 5, "gen": 5, "gen.oxs": 5, "gen.coverage.universe": 10}
 # Estimated kernel seconds of one bound computation by computer and n (SAM: first + per extra repetition), and of
 # the cheap statement kinds by n.  Only used to keep a sample within its time budget; nothing depends on the values.
 COMPUTE_COST = {"sa": {0: .05, 1: .05, 2: .05, 3: .25, 4: .6, 5: 2.5, 6: 11.0},
@@ -86,6 +107,7 @@ MAX_OPS = 14              # operations in one `tab` segment
 MAX_COMPUTES = 3          # bound computations in one `tab` segment
 MAX_NAT = 10 ** 30        # coalition ids / players as literals
 MAX_BITS_LIST = 80        # longest expected list in a `bits` statement
+MAX_LINE = 60000          # longest protocol line / answer a statement is made of (characters)
 
 
 class Unsupported(Exception):
@@ -146,6 +168,19 @@ def l_rat_arg(x: Fraction) -> str:
 
 def l_rats(xs) -> str:
     return "[" + ", ".join(l_rat(x) for x in xs) + "]"
+
+
+def m_rat(x: Fraction) -> str:
+    """an input rational the way the driver builds it (`Proto.parseRat?`): `mkRat p q`, an integer as `(p : Rat)`.
+    Used by the domains added later: with thousands of `p/q` terms in one statement the elaborator's treatment of
+    pending numerals gets quadratic (48 s for 350 fractions inside pairs); `mkRat p q` elaborates at once."""
+    if x.denominator == 1:
+        return f"({x.numerator} : Rat)"
+    return f"(mkRat {x.numerator} {x.denominator})" if x > 0 else f"(mkRat ({x.numerator}) {x.denominator})"
+
+
+def m_rats(xs) -> str:
+    return "[" + ", ".join(m_rat(x) for x in xs) + "]"
 
 
 def l_nats(xs) -> str:
@@ -211,6 +246,7 @@ class Candidate:
     prop: str                 # the Lean proposition
     source: list = field(default_factory=list)     # (protocol line, observed answer) pairs it was made from
     origin: tuple | None = None                    # `tab`: the (`tab new …`, answer) or (`tab dump …`, answer) it starts from
+    mod: str = "Basic"                             # the module ICG.KernelCheck.<mod> the statement needs
 
     def shown(self, k: int = 8, width: int = 300) -> list[str]:
         src = ([self.origin] if self.origin else []) + list(self.source)
@@ -587,6 +623,1284 @@ def _shp_candidate(w: list[str], ans: str) -> Candidate:
     raise Unsupported("shp operation")
 
 
+# ----------------------------------------------------------------------------------------------
+# domain `norm` (stateless; grammar: lean/ICG/Driver/Norm.lean; wrappers: lean/ICG/KernelCheck/Norm.lean)
+
+def fields(ans: str, *names: str) -> list[str]:
+    """`A=x B=y …` → [x, y, …] (exactly these names, in this order)"""
+    parts = ans.split(" ")
+    if len(parts) != len(names) or any(not p.startswith(nm + "=") for p, nm in zip(parts, names)):
+        raise Unsupported("answer fields")
+    return [p[len(nm) + 1:] for p, nm in zip(parts, names)]
+
+
+def _rat_digits(*texts: str) -> int:
+    """size measure of the rationals of a statement: the longest numerator / denominator, in digits"""
+    return max((len(x) for t in texts for x in re.findall(r"[0-9]+", t)), default=1)
+
+
+NORM_COST = {0: .05, 1: .05, 2: .06, 3: .1, 4: .3, 5: 1.2, 6: 6.0}      # icg / icgpart / denorm (the in-place loops)
+NORM_FLAT = {0: .05, 1: .05, 2: .05, 3: .06, 4: .1, 5: .25, 6: .8}      # closed / graph / gtable / gdenorm
+
+
+def _norm_candidate(w: list[str], ans: str) -> Candidate:
+    op, a = w[1], w[2:]
+    if not a:
+        raise Unsupported("norm operation")
+    n = p_nat(a[0])
+    if n > MAX_N["norm"]:
+        raise Unsupported("n")
+
+    def rtol_of(k: int) -> str:
+        """optional last argument (position k of the arguments)"""
+        if len(a) == k:
+            return "Norm.defaultRtol"
+        if len(a) == k + 1:
+            return m_rat(p_rat(a[k]))
+        raise Unsupported("arity")
+
+    def info_table(s: str) -> str:
+        i, sv, lo, up = fields(s, "I", "S", "L", "U")
+        return f"(({q_text(i)}, {qs_text(sv)}), ({qs_text(lo)},\n      {qs_text(up)}))"
+
+    def mat(s: str) -> str:
+        m = p_list(s, p_rat)
+        if len(m) != n * n:
+            raise Unsupported("matrix size")
+        return m_rats(m)
+
+    if op == "icg" and len(a) in (2, 3):
+        prop = f"KC.normIcg {rtol_of(2)} {n} {m_rats(p_list(a[1], p_rat))}\n  = {except_ans(ans, info_table)}"
+        cost = NORM_COST
+    elif op == "icgpart" and len(a) in (3, 4):
+        prop = (f"KC.normIcgPart {rtol_of(3)} {n} {l_nats(p_list(a[1], p_nat))} {m_rats(p_list(a[2], p_rat))}\n"
+                f"  = {except_ans(ans, info_table)}")
+        cost = NORM_COST
+    elif op == "closed" and len(a) in (2, 3):
+        vals = p_list(a[1], p_rat)
+        _values_ok(n, vals)
+        (v,) = fields(ans, "V")
+        prop = f"KC.normClosed {rtol_of(2)} {n} {m_rats(vals)}\n  = {qs_text(v)}"
+        cost = NORM_FLAT
+    elif op == "graph" and len(a) == 2:
+        i, sv, m, v = fields(ans, "I", "S", "M", "V")
+        prop = f"KC.normGraph {n} {mat(a[1])}\n  = (({q_text(i)}, {qs_text(sv)}), {qs_text(m)},\n     {qs_text(v)})"
+        cost = NORM_FLAT
+    elif op == "gtable" and len(a) == 2:
+        (v,) = fields(ans, "V")
+        prop = f"KC.normGtable {n} {mat(a[1])}\n  = {qs_text(v)}"
+        cost = NORM_FLAT
+    elif op == "denorm" and len(a) == 4:
+        def lu(s: str) -> str:
+            lo, up = fields(s, "L", "U")
+            return f"({qs_text(lo)},\n      {qs_text(up)})"
+        prop = (f"KC.normDenorm {n} {m_rat(p_rat(a[1]))} {m_rats(p_list(a[2], p_rat))} {m_rats(p_list(a[3], p_rat))}\n"
+                f"  = {except_ans(ans, lu)}")
+        cost = NORM_COST
+    elif op == "gdenorm" and len(a) == 3:
+        m, v = fields(ans, "M", "V")
+        prop = f"KC.normGdenorm {n} {m_rat(p_rat(a[1]))} {mat(a[2])}\n  = ({qs_text(m)},\n     {qs_text(v)})"
+        cost = NORM_FLAT
+    else:
+        raise Unsupported("norm operation")
+    kind = "norm." + op + (".err" if ans in ERR_KINDS else "")
+    return Candidate(kind, n, prop, mod="Norm", cost=cost.get(n, 30.0) * (1 + _rat_digits(*a[1:], ans) / 12))
+
+
+# ----------------------------------------------------------------------------------------------
+# domain `store` (grammar: lean/ICG/Driver/Store.lean; wrappers: lean/ICG/KernelCheck/Store.lean)
+
+_TOKEN = re.compile(r"[A-Za-z0-9_.+\-]*\Z")        # names / cells / keys / values the statements are made of
+
+
+STRN_MIN = 24             # ASCII strings at least this long are written `KC.strC [(len, 0x…), …]` (KernelCheck/Str.lean)
+STRN_CHUNK = 24           # characters per chunk
+
+
+def _enc7(s: str) -> str:
+    return hex(int("".join(format(b, "07b") for b in s.encode("ascii")), 2))
+
+
+def l_str(s: str) -> str:
+    """a Lean term for the string: a literal, or — longer ASCII strings, for which the kernel's unfolding of a literal is
+    quadratic — `KC.strC chunks`, every chunk (length, the character codes as base-128 digits of one numeral); linear,
+    see KernelCheck/Str.lean"""
+    if len(s) >= STRN_MIN and s.isascii():
+        return "(KC.strC [" + ", ".join(f"({len(s[i:i + STRN_CHUNK])}, {_enc7(s[i:i + STRN_CHUNK])})"
+                                        for i in range(0, len(s), STRN_CHUNK)) + "])"
+    out = []
+    for ch in s:
+        if ch == "\\":
+            out.append("\\\\")
+        elif ch == '"':
+            out.append('\\"')
+        elif 32 <= ord(ch) < 127 or ord(ch) > 0xFFFF:
+            out.append(ch)
+        elif ord(ch) < 256:
+            out.append("\\x%02x" % ord(ch))
+        else:
+            out.append("\\u%04x" % ord(ch))
+    return '"' + "".join(out) + '"'
+
+
+def l_strs(xs) -> str:
+    return "[" + ", ".join(l_str(x) for x in xs) + "]"
+
+
+def p_token(s: str) -> str:
+    if not _TOKEN.match(s):
+        raise Unsupported("token with a separator character")
+    return s
+
+
+def p_store_arr(s: str):
+    """`Driver.Store.parseArr?`"""
+    parts = s.split(":")
+    if len(parts) != 2:
+        raise Unsupported("array")
+    shape = [] if parts[0] == "-" else [p_nat(x) for x in parts[0].split("x")]
+    cells = [] if parts[1] == "-" else [p_token(x) for x in parts[1].split(",")]
+    return shape, cells
+
+
+def p_store_entry(s: str):
+    """`Driver.Store.parseEntry?`"""
+    parts = s.split(";")
+    if len(parts) != 3:
+        raise Unsupported("entry")
+    meta = []
+    if parts[2] != "-":
+        for kv in parts[2].split(","):
+            kvp = kv.split("=")
+            if len(kvp) != 2:
+                raise Unsupported("metadata")
+            meta.append((p_token(kvp[0]), p_token(kvp[1])))
+    return p_store_arr(parts[0]), p_store_arr(parts[1]), meta
+
+
+def show_store_entry(e) -> str:
+    """`Driver.Store.showEntry`"""
+    def arr(a):
+        return ("x".join(str(x) for x in a[0]) if a[0] else "-") + ":" + (",".join(a[1]) if a[1] else "-")
+    return arr(e[0]) + ";" + arr(e[1]) + ";" + (",".join(k + "=" + v for k, v in e[2]) if e[2] else "-")
+
+
+def l_store_entry(e) -> str:
+    def arr(a):
+        return f"⟨{l_nats(a[0])}, {l_strs(a[1])}⟩"
+    return f"⟨{arr(e[0])}, {arr(e[1])}, [" + ", ".join(f"({l_str(k)}, {l_str(v)})" for k, v in e[2]) + "]⟩"
+
+
+def p_observed_entry(s: str):
+    """an entry the driver PRINTED: parsed like an input, and it must print as exactly that text again"""
+    e = p_store_entry(s)
+    if show_store_entry(e) != s:
+        raise Unsupported("entry text is not canonical")
+    return e
+
+
+MAX_STORE_OPS = 24
+MAX_STORE_CHARS = 40000       # characters of one `store` statement
+MAX_CRASH_CHARS = 110000      # characters of one `store crash` statement (file contents in hex)
+MAX_STRING_COST = 40.0        # estimated kernel seconds of the string comparisons of one statement
+
+_STRN = re.compile(r"\(([0-9]+), 0x[0-9a-f]+\)")
+_STR_LIT = re.compile(r'"((?:[^"\\]|\\.)*)"')
+
+
+def string_cost(prop: str, times: float = 0.6) -> float:
+    """Estimated kernel seconds spent on the string literals of a statement.  The kernel unfolds a literal to
+    `String.ofList [chars]`, i.e. to the UTF-8 bytes through `List.utf8Encode` / `List.toByteArray` (an accumulator loop
+    of `Array.push`, quadratic in the kernel), and compares byte lists: measured 21 ms for one comparison of two
+    16-character literals, 0.17 s at 64, 2.6 s at 256, 42 s at 1024 characters; repeated occurrences of one literal inside a
+    statement are converted once (the kernel caches), so distinct literals are counted."""
+    lit = sum(1.3e-3 * len(m) + 4e-5 * len(m) ** 2 for m in set(_STR_LIT.findall(prop)))
+    # `KC.strC [(len, 0x…), …]`: linear, about 0.35 ms per character and traversal
+    lin = sum(0.7e-3 * int(m) for m in _STRN.findall(prop))
+    return times * (lit + lin)
+
+
+def _store_candidates(lines: list[str], answers: list[str], out: list[Candidate]) -> None:
+    class Seg:
+        def __init__(self, start, origin):
+            self.start, self.origin = start, origin          # start: list of (name, entry) | None (unknown)
+            self.ops, self.src = [], []                      # (Lean SOp, Lean SAns), (line, answer)
+
+    segs: dict[str, Seg] = {}
+
+    def l_store(st) -> str:
+        return "[" + ",\n     ".join(f"({l_str(nm)}, {l_store_entry(e)})" for nm, e in st) + "]"
+
+    def flush(sid: str) -> None:
+        g = segs.get(sid)
+        if g is None or g.start is None or not g.ops or len(g.ops) > MAX_STORE_OPS:
+            return
+        prop = (f"KC.storeRun {l_store(g.start)}\n    [" + ",\n     ".join(o for o, _ in g.ops) + "]\n  = ["
+                + ",\n     ".join(a for _, a in g.ops) + "]")
+        chars = len(prop)
+        if chars > MAX_STORE_CHARS:
+            return
+        cost = 0.3 + string_cost(prop)
+        if cost > MAX_STRING_COST:
+            return
+        out.append(Candidate("store.ops", len(g.ops), prop, list(g.src), origin=g.origin, mod="Store", cost=cost))
+
+    for ln, ans in zip(lines, answers):
+        w = [x for x in ln.split(" ") if x]
+        if len(w) < 3 or w[0] != "store" or w[1] == "crash" or ans == "bad-op":
+            continue
+        op, sid, a = w[1], w[2], w[3:]
+        src = (ln, ans)
+        try:
+            if op == "reset" and not a:
+                flush(sid)
+                segs[sid] = Seg([], src)
+                continue
+            g = segs.get(sid)
+            if g is None:
+                g = segs[sid] = Seg(None, None)
+            if len(ln) + len(ans) > MAX_STORE_CHARS:
+                raise Unsupported("line too long")
+            if op == "save" and len(a) == 2 and ans in ("kept", "added"):
+                g.ops.append((f".save {l_str(p_token(a[0]))} {l_store_entry(p_store_entry(a[1]))}",
+                              f".saved {'true' if ans == 'kept' else 'false'}"))
+            elif op == "lookup" and len(a) == 1:
+                la = ".entry none" if ans == "none" else f".entry (some {l_store_entry(p_observed_entry(ans))})"
+                g.ops.append((f".lookup {l_str(p_token(a[0]))}", la))
+            elif op == "names" and not a:
+                g.ops.append((".names", f".names {l_strs([] if ans == '-' else [p_token(x) for x in ans.split(',')])}"))
+            elif op == "dump" and not a:
+                st = []
+                if ans != "-":
+                    for item in ans.split(" "):
+                        nm, sep, et = item.partition("=")
+                        if not sep:
+                            raise Unsupported("dump item")
+                        st.append((p_token(nm), p_observed_entry(et)))
+                g.ops.append((".dump", f".dump {l_store(st)}"))
+                g.src.append(src)
+                flush(sid)
+                segs[sid] = Seg(st, src)          # the next segment starts from the store this dump showed
+                continue
+            else:
+                raise Unsupported("store operation")
+            g.src.append(src)
+        except Unsupported:
+            segs[sid] = Seg(None, None)           # unknown until the next reset / dump
+    for sid in list(segs):
+        flush(sid)
+
+
+def _store_crash_candidate(w: list[str], ans: str) -> Candidate:
+    """`store crash <target> <init> <op>*` → `atomic=<0|1> <class_0> … <class_N>`"""
+    if len(w) < 4:
+        raise Unsupported("crash arity")
+    target, init_s, ops_s = w[2], w[3], w[4:]
+    init = []
+    if init_s != "-":
+        for kv in init_s.split(","):
+            kvp = kv.split("=")
+            if len(kvp) != 2:
+                raise Unsupported("init")
+            init.append((kvp[0], kvp[1]))
+    ctor = {"or": "openRead", "ot": "openTrunc", "ox": "openExcl", "ok": "openKeep", "c": "close", "fs": "fsync",
+            "rm": "unlink", "x": "other"}
+    ops = []
+    for o in ops_s:
+        p = o.split(":")
+        if len(p) == 2 and p[0] in ctor:
+            ops.append(f".{ctor[p[0]]} {l_str(p[1])}")
+        elif len(p) == 3 and p[0] == "w":
+            ops.append(f".write {l_str(p[1])} {l_str(p[2])}")
+        elif len(p) == 3 and p[0] == "mv":
+            ops.append(f".rename {l_str(p[1])} {l_str(p[2])}")
+        else:
+            raise Unsupported("file-system operation")
+    parts = ans.split(" ")
+    if len(parts) != len(ops) + 2 or parts[0] not in ("atomic=0", "atomic=1"):
+        raise Unsupported("crash answer")
+    cls = []
+    for c in parts[1:]:
+        if c in ("old", "new", "absent"):
+            cls.append("." + c)
+        elif c.startswith("lit:"):
+            cls.append(f".lit {l_str(c[4:])}")
+        else:
+            raise Unsupported("class")
+    prop = (f"KC.crash {l_str(target)} [" + ", ".join(f"({l_str(k)}, {l_str(v)})" for k, v in init) + "]\n    ["
+            + ",\n     ".join(ops) + "]\n  = (" + ("true" if parts[0] == "atomic=1" else "false") + ", [" + ", ".join(cls) + "])")
+    chars = len(prop)
+    if chars > MAX_CRASH_CHARS:
+        raise Unsupported("statement too long")
+    cost = 0.3 + string_cost(prop, times=1.0)
+    if cost > MAX_STRING_COST:
+        raise Unsupported("contents too long for the kernel's string comparison")
+    return Candidate("store.crash", len(ops), prop, mod="Store", cost=cost)
+
+
+# ----------------------------------------------------------------------------------------------
+# domain `srch` (grammar: lean/ICG/Driver/Srch.lean; wrappers: lean/ICG/KernelCheck/Srch.lean)
+
+MAX_GT_PUTS = 600         # `srch gt put` lines of one gap table
+MAX_SRCH_SEQS = 300       # action sequences one `expl` / `best` enumerates
+
+
+def p_int(s: str) -> int:
+    if not _INT.match(s):
+        raise Unsupported("not an integer")
+    return int(s)
+
+
+def p_optnat(s: str):
+    return None if s == "none" else p_nat(s)
+
+
+def l_optnat(k) -> str:
+    return "none" if k is None else f"(some {k})"
+
+
+def l_natlists(ls) -> str:
+    return "[" + ", ".join(l_nats(x) for x in ls) + "]"
+
+
+def _binom(n: int, k: int) -> int:
+    return math.comb(n, k) if 0 <= k <= n else 0
+
+
+def _srch_candidates(lines: list[str], answers: list[str], out: list[Candidate]) -> None:
+    tabs: dict[str, dict] = {}
+
+    def gt(name: str):
+        g = tabs.get(name)
+        if g is None or g["bad"] or len(g["puts"]) > MAX_GT_PUTS:
+            raise Unsupported("gap table")
+        lit = (f"(KC.gtOf {g['n']} {g['reps']} [" + ",\n      ".join(f"({l_nats(ids)}, {m_rats(vals)})" for ids, vals in g["puts"]) + "])")
+        return g, lit
+
+    def nseqs(n: int, start: list[int], k) -> int:
+        u = max(0, 2 ** n - len(set(start)))
+        kk = u if k is None else min(k, u)
+        return sum(_binom(u, i) for i in range(kk + 1))
+
+    def add(kind, n, prop, src, origin, cost):
+        out.append(Candidate("srch." + kind, n, prop, [src], origin=origin, mod="Srch", cost=cost))
+
+    for ln, ans in zip(lines, answers):
+        w = [x for x in ln.split(" ") if x]
+        if len(w) < 2 or w[0] != "srch" or ans == "bad-op":
+            continue
+        op, a = w[1], w[2:]
+        src = (ln, ans)
+        try:
+            if op == "gt":
+                if len(a) == 4 and a[0] == "new":
+                    tabs[a[1]] = {"n": p_nat(a[2]), "reps": p_nat(a[3]), "puts": [], "bad": False, "origin": src}
+                elif len(a) == 4 and a[0] == "put":
+                    g = tabs.get(a[1])
+                    if g is not None:
+                        try:
+                            g["puts"].append((p_list(a[2], p_nat), p_list(a[3], p_rat)))
+                        except Unsupported:
+                            g["bad"] = True
+                elif len(a) == 2 and a[0] == "drop":
+                    tabs.pop(a[1], None)
+                continue
+            if op == "seqs" and len(a) == 2:
+                unk, k = p_list(a[0], p_nat), p_optnat(a[1])
+                seqs = [] if ans == "" else [p_list(x, p_nat) for x in ans.split(";")]
+                if len(seqs) > MAX_SRCH_SEQS:
+                    raise Unsupported("too many sequences")
+                add("seqs", len(unk), f"KC.srchSeqs {l_nats(unk)} {l_optnat(k)} = {l_natlists(seqs)}", src, None, 0.1 + len(seqs) / 500)
+            elif op == "chunks" and len(a) == 2:
+                ln_, procs = p_nat(a[0]), p_nat(a[1])
+                if ln_ > 2000:
+                    raise Unsupported("length")
+                add("chunks", ln_, f"KC.srchChunks {ln_} {procs} = {except_ans(ans, lambda s: l_nats(p_list(s, p_nat)))}", src, None, 0.1 + ln_ / 1000)
+            elif op == "expl" and len(a) == 6:
+                g, lit = gt(a[0])
+                j, start, k, procs, poison = p_nat(a[1]), p_list(a[2], p_nat), p_optnat(a[3]), p_nat(a[4]), p_rat(a[5])
+                m = nseqs(g["n"], start, k)
+                if m > MAX_SRCH_SEQS or g["n"] > MAX_N["srch"]:
+                    raise Unsupported("too many sequences")
+
+                def pairs(s: str) -> str:
+                    items = []
+                    for it in ([] if s == "" else s.split(";")):
+                        sq, sep, q = it.partition("=")
+                        if not sep:
+                            raise Unsupported("expl item")
+                        items.append(f"({l_nats(p_list(sq, p_nat))}, {q_text(q)})")
+                    return "[" + ", ".join(items) + "]"
+                add("expl", g["n"], f"KC.srchExpl {lit}\n    {j} {l_nats(start)} {l_optnat(k)} {procs} {m_rat(poison)}\n  = {except_ans(ans, pairs)}",
+                    src, g["origin"], 0.2 + m * SRCH_SEQ_COST.get(g["n"], 1.0) + len(g["puts"]) / 300)
+            elif op == "stack" and len(a) == 5:
+                g, lit = gt(a[0])
+                start, seq, procs, poison = p_list(a[1], p_nat), p_list(a[2], p_nat), p_nat(a[3]), p_rat(a[4])
+                if g["n"] > MAX_N["srch"] or g["reps"] > 40:
+                    raise Unsupported("size")
+                add("stack", g["n"], f"KC.srchStack {lit}\n    {l_nats(start)} {l_nats(seq)} {procs} {m_rat(poison)}\n  = {except_ans(ans, qs_text)}",
+                    src, g["origin"], 0.2 + g["reps"] * SRCH_SEQ_COST.get(g["n"], 1.0) + len(g["puts"]) / 300)
+            elif op == "best" and len(a) == 4:
+                g, lit = gt(a[0])
+                start, steps, procs = p_list(a[1], p_nat), p_nat(a[2]), p_nat(a[3])
+                m = nseqs(g["n"], start, steps) * max(1, g["reps"])
+                if m > MAX_SRCH_SEQS or g["n"] > MAX_N["srch"]:
+                    raise Unsupported("too many sequences")
+
+                def best(s: str) -> str:
+                    rows, sep, acts = s.partition("#")
+                    if not sep:
+                        raise Unsupported("best answer")
+                    return ("([" + ", ".join(qs_text(r) for r in rows.split("|")) + "],\n     "
+                            + l_natlists([p_list(x, p_nat) for x in acts.split("|")]) + ")")
+                add("best", g["n"], f"KC.srchBest {lit}\n    {l_nats(start)} {steps} {procs}\n  = {except_ans(ans, best)}",
+                    src, g["origin"], 0.3 + 2.2 * m * SRCH_SEQ_COST.get(g["n"], 1.0) + len(g["puts"]) / 300)
+            elif op == "meta" and len(a) == 4:
+                g, lit = gt(a[0])
+                j, m, poison = p_nat(a[1]), p_nat(a[2]), p_rat(a[3])
+                if g["n"] > MAX_N["srch"]:
+                    raise Unsupported("n")
+                add("meta" + (".err" if ans in ERR_KINDS else ""), g["n"],
+                    f"KC.srchMeta {lit}\n    {j} {m} {m_rat(poison)}\n  = {except_ans(ans, q_text)}",
+                    src, g["origin"], 0.2 + 30 * SRCH_SEQ_COST.get(g["n"], 1.0) + len(g["puts"]) / 300)
+            elif op == "greedy" and len(a) == 6:
+                g, lit = gt(a[0])
+                start, expl, steps, procs = p_list(a[1], p_nat), p_list(a[2], p_nat), p_nat(a[3]), p_nat(a[4])
+                orders = [p_list(x, p_nat) for x in a[5].split(";")]
+                if g["n"] > MAX_N["srch"] or g["reps"] > 40 or steps > 40:
+                    raise Unsupported("size")
+
+                def greedy(s: str) -> str:
+                    if s == "bad-order":
+                        return "none"
+                    rows, sep, acts = s.partition("#")
+                    if not sep:
+                        raise Unsupported("greedy answer")
+                    return "(some ([" + ", ".join(qs_text(r) for r in rows.split("|")) + f"],\n     {l_nats(p_list(acts, p_nat))}))"
+                evals = (1 + (steps + 1) * max(1, len(expl))) * max(1, g["reps"])
+                add("greedy" + (".err" if ans in ERR_KINDS else ""), g["n"],
+                    f"KC.srchGreedy {lit}\n    {l_nats(start)} {l_nats(expl)} {steps} {procs} {l_natlists(orders)}\n  = {except_ans(ans, greedy)}",
+                    src, g["origin"], 0.3 + evals * SRCH_SEQ_COST.get(g["n"], 1.0) + len(g["puts"]) / 300)
+            elif op == "evalone" and len(a) == 3:
+                limit, r0 = p_nat(a[0]), p_rat(a[1])
+                steps = []
+                for st in p_list(a[2].replace(";", ","), lambda x: x):
+                    p = st.split(":")
+                    if len(p) != 3 or p[1] not in ("0", "1"):
+                        raise Unsupported("step")
+                    steps.append(f"({m_rat(p_rat(p[0]))}, {l_bool(p[1])}, {p_nat(p[2])})")
+                if limit > 200:
+                    raise Unsupported("limit")
+
+                def ev(s: str) -> str:
+                    gaps, sep, ids = s.partition("#")
+                    if not sep:
+                        raise Unsupported("evalone answer")
+                    return f"({qs_text(gaps)}, {l_nats(p_list(ids, p_nat))})"
+                add("evalone", limit, f"KC.srchEvalOne {limit} {m_rat(r0)} [{', '.join(steps)}]\n  = {except_ans(ans, ev)}", src, None, 0.1 + limit / 100)
+            elif op == "pooldraws" and len(a) == 4:
+                ctor, limit, reps, procs = (p_nat(x) for x in a)
+                if limit * reps > 2000:
+                    raise Unsupported("size")
+
+                def pd(s: str) -> str:
+                    items = []
+                    for it in ([] if s == "" else s.split(";")):
+                        gaps, sep, ids = it.partition("#")
+                        if not sep:
+                            raise Unsupported("pooldraws item")
+                        items.append(f"({l_ints(p_list(gaps, p_int))}, {l_nats(p_list(ids, p_nat))})")
+                    return "[" + ", ".join(items) + "]"
+                add("pooldraws", reps, f"KC.srchPoolDraws {ctor} {limit} {reps} {procs}\n  = {except_ans(ans, pd)}", src, None, 0.1 + limit * reps / 200)
+        except (Unsupported, ValueError):
+            continue
+
+
+# ----------------------------------------------------------------------------------------------
+# domain `env` (grammar: lean/ICG/Driver/Env.lean; wrappers: lean/ICG/KernelCheck/Env.lean)
+
+MAX_ENV_OPS = 20          # protocol lines (oracle lines not counted) in one `env` segment
+MAX_ENV_ORACLE = 80       # oracle entries alive in one segment
+ENV_OP_COST = {0: .02, 1: .02, 2: .03, 3: .05, 4: .12, 5: .4, 6: 1.5}     # one step / snap, by n
+
+
+def m_except(s: str, ok) -> str:
+    return f"(.error {l_err(s)})" if s in ERR_KINDS else f"(.ok {ok(s)})"
+
+
+def _env_candidates(lines: list[str], answers: list[str], out: list[Candidate]) -> None:
+    class Obj:
+        def __init__(self):
+            self.oracle: list[tuple[str, str]] = []      # (key, Lean OEntry), newest first — as the driver keeps them
+            self.static = None                           # (comp, gapk, budget, n) of the last successful `new`
+            self.info = None                             # (ik, ex) of an `info` answer since then
+            self.game = None                             # (full, norm) Lean literals
+            self.start: str | None = ".fresh"
+            self.origin = None
+            self.ops: list[tuple[str, str]] = []
+            self.src: list[tuple[str, str]] = []
+            self.weight = 0.0                            # cost units (multiples of one step at this n)
+            self.nops = 0
+            self.n = 0
+            self.kinds: set[str] = set()
+            self.dead = False                            # tracking lost: no restart from a shown state until `drop`
+            self.comp = "ext"                            # computer of the last `new`: its cost is part of every step
+
+        def restart(self, start, origin):
+            self.start, self.origin = start, origin
+            self.ops, self.src, self.weight, self.nops, self.kinds = [], [], 0.0, 0, set()
+
+    objs: dict[str, Obj] = {}
+
+    def flush(o: Obj) -> None:
+        if o.start is None or not o.ops or o.nops == 0 or o.nops > MAX_ENV_OPS or o.n > MAX_N["env"]:
+            return
+        prop = (f"KC.envRun {o.start}\n    [" + ",\n     ".join(op for op, _ in o.ops) + "]\n  = ["
+                + ",\n     ".join(a for _, a in o.ops) + "]")
+        if len(prop) > 60000:
+            return
+        kind = "env." + ("lin" if any(k.startswith("lin") for k in o.kinds) else "solve" if "solve" in o.kinds
+                         else "step" if o.kinds & {"step", "unstep", "reset", "new"} else "read")
+        per = ENV_OP_COST.get(o.n, 5.0) + (0.0 if o.comp == "ext" else compute_cost(o.comp, o.n))
+        cost = 0.3 + (o.weight + 1) * per + len(prop) / 15000
+        out.append(Candidate(kind, o.n, prop, list(o.src), origin=o.origin, mod="Env", cost=cost))
+
+    def comp_lit(s: str) -> str:
+        if s == "ext":
+            return ".ext"
+        return f"(.model {computer_lit(s)[0]})"
+
+    def budget_lit(s: str) -> str:
+        return l_optnat(p_optnat(s))
+
+    def out_ans(s: str) -> str:
+        if s in ERR_KINDS:
+            return f".err {l_err(s)}"
+        if s == "illegal-choice":
+            return ".illegal"
+        obs, r, d, c = fields(s, "obs", "r", "done", "c")
+        return f".out {qs_text(obs)} {q_text(r)} {l_bool(d)} {p_nat(c)}"
+
+    def err_or(s: str, f) -> str:
+        return f".err {l_err(s)}" if s in ERR_KINDS else f(s)
+
+    for ln, ans in zip(lines, answers):
+        w = [x for x in ln.split(" ") if x]
+        if len(w) < 3 or w[0] != "env" or ans == "bad-op":
+            continue
+        op, name, a = w[1], w[2], w[3:]
+        src = (ln, ans)
+        o = objs.get(name)
+        if o is None:
+            o = objs[name] = Obj()
+        try:
+            units = 0.0
+            if op == "oracle" and len(a) == 4 and ans == "ok":
+                key = p_known(a[0])
+                if a[1] in ERR_KINDS:
+                    b = f"(.error {l_err(a[1])})"
+                else:
+                    b = f"(.ok ({m_rats(p_list(a[1], p_rat))}, {m_rats(p_list(a[2], p_rat))}))"
+                g = m_except(a[3], lambda s: m_rat(p_rat(s)))
+                o.ops.append((f".oracle {l_bools(key)} {b} {g}", ".ok"))
+                o.oracle = [(a[0], f"⟨{l_bools(key)}, {b[1:-1]}, {g[1:-1]}⟩")] + [e for e in o.oracle if e[0] != a[0]]
+                if len(o.oracle) > MAX_ENV_ORACLE:
+                    raise Unsupported("oracle table too large")
+                o.src.append(src)
+                continue
+            if op == "oracle-clear" and not a and ans == "ok":
+                o.ops.append((".oracleClear", ".ok"))
+                o.oracle = []
+                o.src.append(src)
+                continue
+            if op == "drop" and not a and ans == "ok":
+                o.ops.append((".drop", ".ok"))
+                o.src.append(src)
+                flush(o)
+                objs[name] = Obj()
+                continue
+            if op == "new" and len(a) == 7:
+                n = p_nat(a[0])
+                full, norm = m_rats(p_list(a[5], p_rat)), m_rats(p_list(a[6], p_rat))
+                lop = (f".new {n} {comp_lit(a[1])} {'.ext' if a[2] == 'ext' else '.l1' if a[2] == 'l1' else _raise()} {budget_lit(a[3])} "
+                       f"{l_nats(p_list(a[4], p_nat))}\n       {full}\n       {norm}")
+                o.ops.append((lop, _ans_status(ans)))
+                o.n = max(o.n, n)
+                o.comp = a[1]
+                o.info = None
+                if ans == "ok":
+                    o.static = (comp_lit(a[1]), ".ext" if a[2] == "ext" else ".l1", budget_lit(a[3]), n)
+                    o.game = (full, norm)
+                else:
+                    o.static, o.game = None, None
+                o.kinds.add("new")
+                units = 2.0
+            elif op == "info" and not a:
+                ik, ex, n, steps, budget = fields(ans, "ik", "ex", "n", "steps", "budget")
+                ikl, exl = p_list(ik, p_nat), p_list(ex, p_nat)
+                o.ops.append((".info", f".info {l_nats(ikl)} {l_nats(exl)} {p_nat(n)} {p_int(steps)} {budget_lit(budget)}"))
+                o.info = (l_nats(ikl), l_nats(exl))
+                units = 0.2
+            elif op in ("reset", "linreset") and len(a) == 2:
+                full, norm = m_rats(p_list(a[0], p_rat)), m_rats(p_list(a[1], p_rat))
+                o.ops.append((f".{op} {full}\n       {norm}", err_or(ans, lambda s: f".obs {qs_text(fields(s, 'obs')[0])}")))
+                o.game = (full, norm)
+                o.kinds.add(op)
+                units = 2.0
+            elif op in ("step", "unstep") and len(a) == 1:
+                o.ops.append((f".{op} ({p_int(a[0])})", out_ans(ans)))
+                o.kinds.add(op)
+                units = 1.5
+            elif op == "linstep" and len(a) == 2:
+                o.ops.append((f".linstep ({p_int(a[0])}) {p_nat(a[1])}", out_ans(ans)))
+                o.kinds.add(op)
+                units = 2.0
+            elif op == "mask" and not a:
+                o.ops.append((".mask", f".bools {l_bools(p_known(ans))}"))
+                units = 0.2
+            elif op == "linmask" and not a:
+                o.ops.append((".linmask", err_or(ans, lambda s: f".bools {l_bools(p_known(s))}")))
+                o.kinds.add(op)
+                units = 0.3
+            elif op in ("state", "linstate") and not a:
+                o.ops.append(("." + op, err_or(ans, lambda s: f".rats {qs_text(s)}")))
+                units = 0.3
+                if op == "linstate":
+                    o.kinds.add(op)
+            elif op == "reward" and not a:
+                o.ops.append((".reward", err_or(ans, lambda s: f".rat {q_text(s)}")))
+                units = 0.5
+            elif op == "done" and not a:
+                o.ops.append((".done", f".bit {l_bool(ans)}"))
+                units = 0.5
+            elif op == "steps" and not a:
+                o.ops.append((".steps", f".int ({p_int(ans)})"))
+            elif op == "dump" and not a:
+                K, L, U = parse_dump(ans)
+                o.ops.append((".dump", f".dump {l_bools(K)} {qs_text(L)} {qs_text(U)}"))
+                units = 0.5
+            elif op == "snap" and not a:
+                mask, state, r, d, steps, K, L, U = fields(ans, "mask", "state", "r", "done", "steps", "K", "L", "U")
+                Kb = p_known(K)
+                o.ops.append((".snap", f".snap {l_bools(p_known(mask))} {qs_text(state)} {m_except(r, q_text)} {l_bool(d)} ({p_int(steps)})\n"
+                                       f"       {l_bools(Kb)} {qs_text(L)}\n       {qs_text(U)}"))
+                o.src.append(src)
+                o.nops += 1
+                o.weight += 1.0
+                o.n = max(o.n, ilog2_exact(len(Kb)))
+                flush(o)
+                if not o.dead and o.static is not None and o.info is not None and o.game is not None:
+                    comp, gapk, budget, n = o.static
+                    start = (f"(.shown [" + ",\n      ".join(e for _, e in o.oracle) + f"]\n      {comp} {gapk} {budget} {n} {o.info[0]} {o.info[1]}\n"
+                             f"      {o.game[0]}\n      {o.game[1]}\n      ({p_int(steps)}) {l_bools(Kb)}\n      {m_rats(p_list(L, p_rat))}\n      {m_rats(p_list(U, p_rat))})")
+                    o.restart(start, src)
+                else:
+                    o.restart(None, None)
+                continue
+            elif op == "solve" and len(a) == 1 and a[0] in ("greedy", "greedy_worst", "largest"):
+                o.ops.append((f".solve {('greedy', 'greedy_worst', 'largest').index(a[0])}",
+                              err_or(ans, lambda s: f".act {p_nat(fields(s, 'a')[0])}")))
+                o.kinds.add("solve")
+                units = 0.5 if a[0] == "largest" else 3.0 * max(1, 2 ** o.n - o.n - 2)
+            elif op == "random" and len(a) == 1:
+                o.ops.append((f".random {p_nat(a[0])}", f".bit {l_bool(ans)}"))
+                units = 0.2
+            elif op == "linsizes" and not a:
+                o.ops.append((".linsizes", f".nats {l_nats(p_list(ans, p_nat))}"))
+                o.kinds.add(op)
+                units = 0.2
+            elif op == "lincands" and len(a) == 1:
+                o.ops.append((f".lincands {p_nat(a[0])}", f".nats {l_nats(p_list(ans, p_nat))}"))
+                o.kinds.add(op)
+                units = 0.2
+            else:
+                raise Unsupported("env operation")
+            o.src.append(src)
+            o.nops += 1
+            o.weight += units
+        except (Unsupported, ValueError, KeyError):
+            o.restart(None, None)          # unknown until the next `drop` (fresh again) or a fully shown state
+            o.static = o.info = o.game = None
+            o.oracle = []
+            o.dead = True
+    for o in objs.values():
+        flush(o)
+
+
+def _raise():
+    raise Unsupported("unknown keyword")
+
+
+# ----------------------------------------------------------------------------------------------
+# domain `rgt` (grammar: lean/ICG/Driver/Rgt.lean; wrappers: lean/ICG/KernelCheck/Rgt.lean)
+
+MAX_RGT_OPS = 40          # protocol lines in one `rgt` segment
+MAX_RGT_ITERS = 3         # `rgt iter` lines in one segment
+RGT_CUT_OPS = 10          # a segment is cut at a fully shown state once it has this many lines (or an `iter`)
+
+
+def rgt_size(n: int, limit: int) -> tuple[int, int, int]:
+    """(m, V, R) of a regret minimiser: viable coalitions, viable meta-coalitions, regret minimisers"""
+    m = max(0, 2 ** n - n - 2)
+    k = min(m, limit)
+    return m, sum(_binom(m, j) for j in range(k + 1)), sum(_binom(m, j) for j in range(k))
+
+
+def rgt_iter_cost(n: int, limit: int) -> float:
+    m, V, R = rgt_size(n, limit)
+    return 0.05 + R * (m + 1) * (m + 1) / 130.0
+
+
+def _rgt_candidates(lines: list[str], answers: list[str], out: list[Candidate]) -> None:
+    class Obj:
+        def __init__(self, start=".fresh", origin=None):
+            self.base = None            # (policy literal, n, limit argument, plus literal, stored limit)
+            self.it = None
+            self.regret = self.strat = None
+            self.dead = False
+            self.size = (0, 0)          # (n, limit) for the cost estimate
+            self.restart(start, origin)
+
+        def restart(self, start, origin):
+            self.start, self.origin = start, origin
+            self.ops, self.src, self.cost, self.iters = [], [], 0.0, 0
+
+    objs: dict[str, Obj] = {}
+
+    def flush(o: Obj) -> None:
+        if o.start is None or not o.ops or len(o.ops) > MAX_RGT_OPS or o.iters > MAX_RGT_ITERS or o.size[0] > MAX_N["rgt"]:
+            return
+        prop = (f"KC.rgtRun {o.start}\n    [" + ",\n     ".join(op for op, _ in o.ops) + "]\n  = ["
+                + ",\n     ".join(a for _, a in o.ops) + "]")
+        if len(prop) > 60000:
+            return
+        kind = "rgt.iter" if o.iters else "rgt.ops"
+        cost = (0.3 + o.cost + len(prop) / 10000) * (1 + _rat_digits(prop) / 20)
+        out.append(Candidate(kind, o.size[0], prop, list(o.src), origin=o.origin, mod="Rgt", cost=cost))
+
+    def pol(args: list[str]):
+        if not args:
+            return ".current", None
+        if len(args) == 2:
+            return f"(.explicit {p_nat(args[0])} {p_nat(args[1])})", p_nat(args[1])
+        raise Unsupported("policy")
+
+    def rows_in(s: str):
+        """rows the driver printed, as an INPUT literal; `-` is ambiguous (no rows / one empty row)"""
+        if s == "-":
+            return None
+        return "[" + ", ".join(m_rats(p_list(r, p_rat)) for r in s.split(";")) + "]"
+
+    def rows_out(s: str) -> str:
+        return ".rows " + ("[]" if s == "-" else "[" + ", ".join(qs_text(r) for r in s.split(";")) + "]")
+
+    def loaded(o: Obj):
+        if o.dead or o.base is None or o.it is None or o.regret is None or o.strat is None:
+            return None
+        p, n, limit, plus, _ = o.base
+        return f"(.loaded {p} {n} {limit} {plus} {o.it}\n      {o.regret}\n      {o.strat})"
+
+    def err_or(s: str, f) -> str:
+        return f".err {l_err(s)}" if s in ERR_KINDS else f(s)
+
+    def maybe_cut(o: Obj, src) -> None:
+        if (o.iters or len(o.ops) >= RGT_CUT_OPS) and loaded(o) is not None:
+            flush(o)
+            o.restart(loaded(o), src)
+
+    for ln, ans in zip(lines, answers):
+        w = [x for x in ln.split(" ") if x]
+        if len(w) < 3 or w[0] != "rgt" or ans == "bad-op":
+            continue
+        op, a = w[1], w[2:]
+        src = (ln, ans)
+        try:
+            if op == "cup" and len(a) == 2:
+                m, k = p_nat(a[0]), p_nat(a[1])
+                if m > 40 or k > 40:
+                    raise Unsupported("size")
+                out.append(Candidate("rgt.cup", m, f"KC.rgtCup {m} {k} = {p_nat(ans)}", [src], mod="Rgt", cost=0.1))
+                continue
+            if op == "metaids" and len(a) == 2:
+                n, limit = p_nat(a[0]), p_nat(a[1])
+                if n > MAX_N["rgt"] or (ans not in ERR_KINDS and len(p_list(ans, p_nat)) > 400):
+                    raise Unsupported("size")
+                out.append(Candidate("rgt.metaids", n, f"KC.rgtMetaIds {n} {limit} = {except_ans(ans, lambda s: l_nats(p_list(s, p_nat)))}",
+                                     [src], mod="Rgt", cost=0.1 + rgt_size(n, limit)[1] / 200))
+                continue
+            if op == "pidmap" and len(a) == 1:
+                n = p_nat(a[0])
+                if n > 7:
+                    raise Unsupported("size")
+                out.append(Candidate("rgt.pidmap", n, f"KC.rgtPidMap {n} = {l_ints(p_list(ans, p_int))}", [src], mod="Rgt", cost=0.1 + 4 ** n / 3000))
+                continue
+        except (Unsupported, ValueError):
+            continue
+        name = a[0]
+        o = objs.get(name)
+        if o is None:
+            o = objs[name] = Obj()
+        a = a[1:]
+        try:
+            if op == "new" and len(a) >= 3:
+                n, limit, plus = p_nat(a[0]), p_nat(a[1]), l_bool(a[2])
+                p, stored = pol(a[3:])
+                if ans == "ok" and (o.start is None or len(o.ops) >= RGT_CUT_OPS):
+                    flush(o)                   # a successful `new` replaces the object whatever it was: start afresh
+                    o.restart(".fresh", None)
+                    o.dead = False
+                o.ops.append((f".new {p} {n} {limit} {plus}", _ans_status(ans)))
+                o.cost += 0.1 + rgt_size(n, limit)[1] / 100
+                if ans == "ok":
+                    o.base = (p, n, limit, plus, limit if stored is None else stored)
+                    o.it, o.regret, o.strat = 0, None, None
+                    o.size = (n, limit)
+            elif op == "info" and not a:
+                n, m, limit, plus, V, R, tlen, it = fields(ans, "n", "m", "limit", "plus", "V", "R", "tlen", "it")
+                o.ops.append((".info", f".info {p_nat(n)} {p_nat(m)} {p_nat(limit)} {l_bool(plus)} {p_nat(V)} {p_nat(R)} {p_nat(tlen)} {p_nat(it)}"))
+                if o.it is None:
+                    o.it = p_nat(it)
+                elif o.it != p_nat(it):
+                    o.dead = True
+                o.cost += 0.05
+            elif op == "ranks" and not a:
+                ids, inv = fields(ans, "ids", "inv")
+                o.ops.append((".ranks", f".ranks {l_nats(p_list(ids, p_nat))} [" + ", ".join("none" if x == "x" else f"some {p_nat(x)}" for x in p_list(inv, lambda x: x)) + "]"))
+                o.cost += 0.1
+            elif op == "table" and not a:
+                o.ops.append((".table", f".nats {l_nats(p_list(ans, p_nat))}"))
+                o.cost += 0.1
+            elif op == "metaid" and len(a) == 1:
+                o.ops.append((f".metaid {l_nats(p_list(a[0], p_nat))}", err_or(ans, lambda s: f".nat {p_nat(s)}")))
+                o.cost += 0.05
+            elif op == "strategy" and len(a) == 1:
+                o.ops.append((f".strategy {p_nat(a[0])}", err_or(ans, lambda s: f".rats {qs_text(s)}")))
+                o.cost += 0.05
+            elif op in ("strategyc", "avg") and len(a) == 1:
+                o.ops.append((f".{op} {l_nats(p_list(a[0], p_nat))}", err_or(ans, lambda s: f".rats {qs_text(s)}")))
+                o.cost += 0.08
+            elif op == "iter" and len(a) == 2:
+                term = p_list(a[0], p_rat)
+                lists = [] if a[1] in ("-", "") else [([] if g == "e" else p_list(g, p_nat)) for g in a[1].split(";")]
+                o.ops.append((f".iter {m_rats(term)} {l_natlists(lists)}", _ans_status(ans)))
+                o.iters += 1
+                o.cost += rgt_iter_cost(*o.size) if o.size[0] else 5.0
+                if ans == "ok":
+                    o.it = None if o.it is None else o.it + 1
+                    o.regret = o.strat = None
+            elif op in ("regret", "cumstrat") and not a:
+                o.ops.append(("." + op, rows_out(ans)))
+                o.cost += 0.05
+                if op == "regret":
+                    o.regret = rows_in(ans)
+                else:
+                    o.strat = rows_in(ans)
+                o.src.append(src)
+                maybe_cut(o, src)
+                continue
+            elif op == "saveload" and len(a) in (1, 3):
+                p, stored = pol(a[1:])
+                o.ops.append((f".saveload {p}", _ans_status(ans)))
+                o.cost += 0.1 + (rgt_size(*o.size)[1] / 100 if o.size[0] else 1.0)
+                if ans == "ok":
+                    d = objs.get(a[0])
+                    if d is not None and d is not o:
+                        flush(d)
+                    d = Obj(None, src)
+                    if o.base is not None and not o.dead:
+                        _, n, _, plus, src_stored = o.base
+                        d.base = (p, n, src_stored, plus, src_stored if stored is None else stored)
+                        d.it, d.regret, d.strat, d.size = o.it, o.regret, o.strat, (n, src_stored)
+                        d.start = loaded(d)
+                    else:
+                        d.dead = True
+                    if a[0] != name:
+                        objs[a[0]] = d
+                    else:                      # reloaded onto itself
+                        o.src.append(src)
+                        flush(o)
+                        objs[name] = d
+                        continue
+            else:
+                raise Unsupported("rgt operation")
+            o.src.append(src)
+        except (Unsupported, ValueError, KeyError):
+            o.restart(None, None)
+            o.dead = True
+    for o in objs.values():
+        flush(o)
+
+
+# ----------------------------------------------------------------------------------------------
+# domain `codec` (stateless; grammar: lean/ICG/Driver/Codec.lean; wrappers: lean/ICG/KernelCheck/Codec.lean)
+
+CODEC_ERR = {"err:value": "value", "err:type": "type", "err:key": "key", "err:overflow": "overflow",
+             "err:not-array": "notArray", "unmodelled": "unmodelled"}
+MAX_CODEC_WORDS = 1500
+_HEX = re.compile(r"(?:[0-9a-f][0-9a-f])*\Z")
+
+
+def unhex(s: str) -> str:
+    """`Driver.Codec.unhex?`: lower-case hex of valid UTF-8"""
+    if not _HEX.match(s):
+        raise Unsupported("hex")
+    try:
+        return bytes.fromhex(s).decode("utf-8")
+    except UnicodeDecodeError:
+        raise Unsupported("not UTF-8") from None
+
+
+def l_int(i: int) -> str:
+    return str(i) if i >= 0 else f"({i})"
+
+
+def c_int(s: str) -> int:
+    """`String.toInt?` on the digits the harness sends"""
+    return p_int(s)
+
+
+def c_float(s: str) -> str:
+    """`Driver.Codec.parseFloat?` → a Lean `FCell String`"""
+    if s == "":
+        raise Unsupported("empty float")
+    return {"nan": ".nan", "inf": ".pinf", "-inf": ".ninf"}.get(s) or f"(.fin {l_str(s)})"
+
+
+def c_scalar(w: str) -> str:
+    """`Driver.Codec.parseScalar?` → a Lean `Scalar String`"""
+    if w == "n":
+        return ".null"
+    if w in ("t", "f"):
+        return f"(.bool {'true' if w == 't' else 'false'})"
+    if w.startswith("i"):
+        return f"(.int {l_int(c_int(w[1:]))})"
+    if w.startswith("F"):
+        return f"(.float {c_float(w[1:])})"
+    raise Unsupported("scalar")
+
+
+def c_arr(s: str) -> str:
+    """`Driver.Codec.parseArr?` → a Lean `Nd String` (as the anonymous constructor; also the `NdT` triple when `triple`)"""
+    return "⟨" + ", ".join(c_arr_parts(s)) + "⟩"
+
+
+def c_arr_parts(s: str) -> tuple[str, str, str]:
+    parts = s.split(":")
+    if len(parts) != 3 or parts[0] not in ("f", "i", "b", "o"):
+        raise Unsupported("array")
+    dt = {"f": ".f64", "i": ".i64", "b": ".bool", "o": ".obj"}[parts[0]]
+    shape = [] if parts[1] == "-" else [p_nat(x) for x in parts[1].split("x")]
+    cells = [] if parts[2] == "-" else [c_scalar(x) for x in parts[2].split(",")]
+    return dt, l_nats(shape), "[" + ", ".join(cells) + "]"
+
+
+def c_arr_triple(s: str) -> str:
+    """an array the driver PRINTED → a Lean `KC.NdT`"""
+    return "⟨" + ", ".join(c_arr_parts(s)) + "⟩"
+
+
+def c_json(ws: list[str], i: int) -> tuple[str, int]:
+    """`Driver.Codec.parseJson`: one JSON value from the words at position i → (Lean `Json String`, next position)"""
+    if i >= len(ws):
+        raise Unsupported("truncated json")
+    w = ws[i]
+    if w == "[":
+        items, i = [], i + 1
+        while True:
+            if i >= len(ws):
+                raise Unsupported("truncated json")
+            if ws[i] == "]":
+                return "(.arr [" + ", ".join(items) + "])", i + 1
+            x, i = c_json(ws, i)
+            items.append(x)
+    if w == "{":
+        items, i = [], i + 1
+        while True:
+            if i >= len(ws):
+                raise Unsupported("truncated json")
+            if ws[i] == "}":
+                return "(.obj [" + ", ".join(items) + "])", i + 1
+            if not ws[i].startswith("k"):
+                raise Unsupported("key")
+            k = unhex(ws[i][1:])
+            v, i = c_json(ws, i + 1)
+            items.append(f"({l_str(k)}, {v})")
+    if w.startswith("s"):
+        return f"(.str {l_str(unhex(w[1:]))})", i + 1
+    sc = c_scalar(w)                  # `Scalar.toJson`: the same constructor names
+    return sc, i + 1
+
+
+def c_key(w: str) -> str:
+    """`Driver.Codec.parseKey?` → a Lean `PyKey`"""
+    if w.startswith("ks"):
+        return f"(.str {l_str(unhex(w[2:]))})"
+    if w.startswith("ki"):
+        return f"(.int {l_int(c_int(w[2:]))})"
+    if w in ("kt", "kf"):
+        return f"(.bool {'true' if w == 'kt' else 'false'})"
+    if w == "kN":
+        return ".none"
+    if w.startswith("kF"):
+        return f"(.float {l_str(unhex(w[2:]))})"
+    if w == "kO":
+        return ".other"
+    raise Unsupported("key")
+
+
+def c_py(ws: list[str], i: int) -> tuple[str, int]:
+    """`Driver.Codec.parsePy` → (Lean `PyVal String`, next position)"""
+    if i >= len(ws):
+        raise Unsupported("truncated value")
+    w = ws[i]
+    if w in ("[", "("):
+        close, ctor = ("]", ".list") if w == "[" else (")", ".tuple")
+        items, i = [], i + 1
+        while True:
+            if i >= len(ws):
+                raise Unsupported("truncated value")
+            if ws[i] == close:
+                return f"({ctor} [" + ", ".join(items) + "])", i + 1
+            x, i = c_py(ws, i)
+            items.append(x)
+    if w == "{":
+        items, i = [], i + 1
+        while True:
+            if i >= len(ws):
+                raise Unsupported("truncated value")
+            if ws[i] == "}":
+                return "(.dict [" + ", ".join(items) + "])", i + 1
+            k = c_key(ws[i])
+            v, i = c_py(ws, i + 1)
+            items.append(f"({k}, {v})")
+    if w == "N":
+        return ".none", i + 1
+    if w in ("t", "f"):
+        return f"(.bool {'true' if w == 't' else 'false'})", i + 1
+    if w.startswith("i"):
+        return f"(.int {l_int(c_int(w[1:]))})", i + 1
+    if w.startswith("F"):
+        return f"(.float {c_float(w[1:])})", i + 1
+    if w.startswith("s"):
+        return f"(.str {l_str(unhex(w[1:]))})", i + 1
+    if w.startswith("P"):
+        return f"(.path {l_str(unhex(w[1:]))})", i + 1
+    if w.startswith("O"):
+        return f"(.other {l_str(unhex(w[1:]))})", i + 1
+    raise Unsupported("python value")
+
+
+def c_whole(parse, ws: list[str]) -> str:
+    t, i = parse(ws, 0)
+    if i != len(ws):
+        raise Unsupported("trailing words")
+    return t
+
+
+def c_args(ws: list[str], tokens: bool = False) -> str:
+    """`Driver.Codec.parseArgs`: `A<hex> <pyval>`* → a Lean list of (attribute, value) — value as tokens when `tokens`"""
+    items, i = [], 0
+    while i < len(ws):
+        if not ws[i].startswith("A"):
+            raise Unsupported("argument")
+        k = unhex(ws[i][1:])
+        v, j = c_py(ws, i + 1)
+        items.append(f"({l_str(k)}, {c_toks(ws[i + 1:j], py=True) if tokens else v})")
+        i = j
+    return "[" + ", ".join(items) + "]"
+
+
+def c_toks(ws: list[str], py: bool) -> str:
+    """the words the driver PRINTED for a JSON (`py=False`) / Python (`py=True`) value → a Lean `List Tok`"""
+    out = []
+    for w in ws:
+        if w in ("[", "]", "{", "}"):
+            out.append({"[": ".lb", "]": ".rb", "{": ".lc", "}": ".rc"}[w])
+        elif py and w in ("(", ")"):
+            out.append(".lp" if w == "(" else ".rp")
+        elif w == ("N" if py else "n"):
+            out.append(".null")
+        elif w in ("t", "f"):
+            out.append(f".bool {'true' if w == 't' else 'false'}")
+        elif py and w.startswith("k"):
+            out.append(f".pkey {c_key(w)}")
+        elif not py and w.startswith("k"):
+            out.append(f".key {l_str(unhex(w[1:]))}")
+        elif w.startswith("i"):
+            out.append(f".int {l_int(c_int(w[1:]))}")
+        elif w.startswith("F"):
+            out.append(f".float {c_float(w[1:])}")
+        elif w.startswith("s"):
+            out.append(f".str {l_str(unhex(w[1:]))}")
+        elif py and w.startswith("P"):
+            out.append(f".path {l_str(unhex(w[1:]))}")
+        elif py and w.startswith("O"):
+            out.append(f".other {l_str(unhex(w[1:]))}")
+        else:
+            raise Unsupported("printed word")
+    return "[" + ", ".join(out) + "]"
+
+
+def c_output(ws: list[str]) -> str:
+    """`data=<arr> actions=<arr> args= <arg>*` → a Lean `OutT`"""
+    if len(ws) < 3 or not ws[0].startswith("data=") or not ws[1].startswith("actions=") or ws[2] != "args=":
+        raise Unsupported("output")
+    return f"⟨{c_arr_triple(ws[0][5:])}, {c_arr_triple(ws[1][8:])}, {c_args(ws[3:], tokens=True)}⟩"
+
+
+def c_except(ans: str, ok) -> str:
+    return f".error .{CODEC_ERR[ans]}" if ans in CODEC_ERR else f".ok {ok(ans)}"
+
+
+def _codec_candidate(w: list[str], ans: str) -> Candidate:
+    op, a = w[1], w[2:]
+    aw = ans.split(" ")
+    if len(a) + len(aw) > MAX_CODEC_WORDS:
+        raise Unsupported("too many words")
+    if op in ("tree", "saveload") and len(a) >= 2:
+        d, ac, args = c_arr(a[0]), c_arr(a[1]), c_args(a[2:])
+        if op == "tree":
+            prop = f"KC.codecTree {d}\n    {ac}\n    {args}\n  = {c_except(ans, lambda s: c_toks(s.split(' '), py=False))}"
+        else:
+            prop = f"KC.codecSaveLoad {d}\n    {ac}\n    {args}\n  = {c_except(ans, lambda s: c_output(s.split(' ')))}"
+    elif op == "load":
+        prop = f"KC.codecLoad {c_whole(c_json, a)}\n  = {c_except(ans, lambda s: c_output(s.split(' ')))}"
+    elif op == "outputs":
+        def outs(s: str) -> str:
+            items = []
+            if s != "-":
+                for part in s.split(" ; "):
+                    pw = part.split(" ")
+                    if not pw[0].startswith("s"):
+                        raise Unsupported("output name")
+                    items.append(f"({l_str(unhex(pw[0][1:]))}, {c_output(pw[1:])})")
+            return "[" + ",\n     ".join(items) + "]"
+        prop = f"KC.codecOutputs {c_whole(c_json, a)}\n  = some ({c_except(ans, outs)})"
+    elif op == "nparray" and len(a) >= 1 and a[0] in ("f", "a"):
+        fn = "codecNpFloat" if a[0] == "f" else "codecNpInfer"
+        prop = f"KC.{fn} {c_whole(c_json, a[1:])}\n  = {c_except(ans, c_arr_triple)}"
+        op = "nparray." + a[0]
+    elif op == "tolist" and len(a) == 1:
+        prop = f"KC.codecTolist {c_arr(a[0])}\n  = {c_except(ans, lambda s: c_toks(s.split(' '), py=False))}"
+    elif op == "reload":
+        prop = f"KC.codecReload {c_whole(c_json, a)}\n  = {c_toks(aw, py=False)}"
+    elif op == "dumps":
+        prop = f"KC.codecDumps {c_whole(c_py, a)}\n  = {c_except(ans, lambda s: c_toks(s.split(' '), py=False))}"
+    elif op == "stringify":
+        prop = f"KC.codecStringify {c_whole(c_py, a)}\n  = {c_except(ans, lambda s: c_toks(s.split(' '), py=True))}"
+    else:
+        raise Unsupported("codec operation")
+    # an integer cell cast to a double is printed by the model (`toString`, i.e. `String.ofList`: the quadratic path)
+    big = sum(2.6e-3 * len(x) + 8e-5 * len(x) ** 2 for x in re.findall(r"[0-9]{30,}", " ".join(a)) )
+    cost = 0.15 + (len(a) + len(aw)) / 400 + string_cost(prop, times=1.0) + big
+    if cost > MAX_STRING_COST:
+        raise Unsupported("strings too long for the kernel's string comparison")
+    return Candidate("codec." + op + (".err" if ans in CODEC_ERR else ""), len(a) + len(aw), prop, mod="Codec", cost=cost)
+
+
+SRCH_SEQ_COST = {0: .01, 1: .01, 2: .01, 3: .02, 4: .05, 5: .2}      # one apply-and-look-up of an action sequence, by n
+
+
+# ----------------------------------------------------------------------------------------------
+# domain `gen` (stateless; grammar: lean/ICG/Driver/Gen.lean; wrappers: lean/ICG/KernelCheck/Gen.lean)
+
+GEN_COST = {0: .05, 1: .05, 2: .05, 3: .1, 4: .2, 5: .5, 6: 1.5, 7: 5.0}                 # the closed-form families
+GEN_OXS_COST = {0: .05, 1: .05, 2: .05, 3: .12, 4: .5, 5: 2.4}                           # one `_apply_or` loop (3^n pairs)
+
+
+def p_bool01(s: str) -> str:
+    return l_bool(s)
+
+
+def _gen_candidate(w: list[str], ans: str) -> Candidate:
+    op, a = w[1], w[2:]
+
+    def vq(s: str) -> str:
+        (v,) = fields(s, "V")
+        return qs_text(v)
+
+    def need(cond: bool) -> None:
+        if not cond:
+            raise Unsupported("gen arguments")
+
+    def cand(kind: str, n: int, prop: str, cost: float) -> Candidate:
+        return Candidate("gen." + kind + (".err" if ans in ERR_KINDS else ""), n, prop, mod="Gen",
+                         cost=cost * (1 + _rat_digits(*a, ans) / 16))
+
+    if op == "predowner" and len(a) == 2:
+        last, n = p_nat(a[0]), p_nat(a[1])
+        need(n != 0)
+        return cand("predowner", n, f"KC.genPredOwner {last} {n} = {p_nat(ans)}", .05)
+    if op == "cheerpick" and len(a) == 2:
+        draws = p_list(a[1], p_nat)
+        return cand("cheerpick", len(draws), f"KC.genCheerPick {p_nat(a[0])} {l_nats(draws)} = {'none' if ans == 'none' else f'some {p_nat(ans)}'}", .05)
+    if op == "cycle" and len(a) == 1:
+        perm = p_list(a[0], p_nat)
+        need(len(perm) <= MAX_N["gen"])
+        m, v = fields(ans, "M", "V")
+        return cand("cycle", len(perm), f"KC.genCycle {l_nats(perm)}\n  = ({qs_text(m)},\n     {qs_text(v)})", 3 * GEN_COST[len(perm)])
+    need(len(a) >= 1)
+    n = p_nat(a[0])
+    need(n <= MAX_N["gen"])
+    base = GEN_COST[n]
+    if op == "factory" and len(a) == 4:
+        owner, ws = p_nat(a[1]), p_list(a[2], p_rat)
+        need(len(ws) == n and owner < n and a[3] in ("id", "one", "sq"))
+        return cand("factory." + a[3], n, f"KC.genFactory {n} {owner} {m_rats(ws)} {('id', 'one', 'sq').index(a[3])}\n  = {vq(ans)}", base)
+    if op == "cheer" and len(a) == 3:
+        return cand("cheer", n, f"KC.genCheer {n} {p_nat(a[1])} {p_nat(a[2])} = {vq(ans)}", base)
+    if op == "cheerkey" and len(a) == 3:
+        return cand("cheerkey", n, f"KC.genCheerKey {n} {p_nat(a[1])} {p_nat(a[2])} = {except_ans(ans, vq)}", base)
+    if op == "cheernext" and len(a) == 2:
+        need(n != 0)
+        return cand("cheernext", n, f"KC.genCheerNext {n} {p_nat(a[1])} = {except_ans(ans, vq)}", base)
+    if op == "graph" and len(a) == 2:
+        mat = p_list(a[1], p_rat)
+        need(len(mat) == n * n)
+        return cand("graph", n, f"KC.genGraph {n} {m_rats(mat)}\n  = {vq(ans)}", 2 * base)
+    if op == "additive" and len(a) == 2:
+        ws = p_list(a[1], p_rat)
+        need(len(ws) == n)
+        return cand("additive", n, f"KC.genAdditive {n} {m_rats(ws)}\n  = {vq(ans)}", base)
+    if op == "xos" and len(a) == 5:
+        k, ws = p_nat(a[1]), p_list(a[2], p_rat)
+        need(len(ws) == k * n and k <= 40)
+        return cand("xos", n, f"KC.genXos {n} {k} {m_rats(ws)} {p_bool01(a[3])} {p_bool01(a[4])}\n  = {except_ans(ans, vq)}", base * (1 + k))
+    if op == "xs" and len(a) == 2:
+        ss = p_list(a[1], p_rat)
+        need(len(ss) == n)
+        return cand("xs", n, f"KC.genXs {n} {m_rats(ss)}\n  = {vq(ans)}", base)
+    if op == "xsud" and len(a) == 3:
+        ps, xv = p_list(a[1], p_nat), p_list(a[2], p_rat)
+        need(len(ps) == len(xv) and all(p < n for p in ps) and len(ps) <= 40)
+        sg, v = fields(ans, "S", "V")
+        return cand("xsud", n, f"KC.genXsud {n} {l_nats(ps)} {m_rats(xv)}\n  = ({qs_text(sg)},\n     {qs_text(v)})", base * (1 + len(ps) / 4))
+    if op == "applyor" and len(a) == 3:
+        x, y = p_list(a[1], p_rat), p_list(a[2], p_rat)
+        need(len(x) == 2 ** n and len(y) == 2 ** n and n <= MAX_N["gen.oxs"])
+        return cand("applyor", n, f"KC.genApplyOr {n} {m_rats(x)}\n    {m_rats(y)}\n  = {vq(ans)}", GEN_OXS_COST[n])
+    if op == "oxs" and len(a) == 4:
+        k, ss = p_nat(a[1]), p_list(a[2], p_rat)
+        need(len(ss) == k * n and n <= MAX_N["gen.oxs"] and k <= 12)
+        return cand("oxs", n, f"KC.genOxs {n} {k} {m_rats(ss)} {p_bool01(a[3])}\n  = {except_ans(ans, vq)}", GEN_OXS_COST[n] * max(1, k - 1) + base)
+    if op == "kbudget" and len(a) == 2:
+        return cand("kbudget", n, f"KC.genKBudget {n} {p_nat(a[1])} = {vq(ans)}", base)
+    if op == "coverage" and len(a) == 3:
+        mult, idx = p_nat(a[1]), p_list(a[2], p_nat)
+        need(mult * n <= MAX_N["gen.coverage.universe"] and len(idx) <= 40)
+        return cand("coverage", n, f"KC.genCoverage {n} {mult} {l_nats(idx)} = {except_ans(ans, vq)}", base + 2 ** (mult * n) / 500)
+    raise Unsupported("gen operation")
+
+
+STATELESS = {"bits": lambda w, ans: _bits_candidate(w, ans), "shp": lambda w, ans: _shp_candidate(w, ans),
+             "gen": lambda w, ans: _gen_candidate(w, ans), "codec": lambda w, ans: _codec_candidate(w, ans),
+             "norm": lambda w, ans: _norm_candidate(w, ans),
+             "store": lambda w, ans: _store_crash_candidate(w, ans) if w[1] == "crash" else None}
+
+
+STATEFUL = [_store_candidates, _srch_candidates, _env_candidates, _rgt_candidates]
+
+
 def candidates_from_batches(batches) -> list[Candidate]:
     """every statement this module can make from the recorded batches (before any sampling)"""
     out: list[Candidate] = []
@@ -594,28 +1908,33 @@ def candidates_from_batches(batches) -> list[Candidate]:
         k = min(len(lines), len(answers))
         lines, answers = lines[:k], answers[:k]
         _tab_candidates(lines, answers, out)
+        for stateful in STATEFUL:
+            stateful(lines, answers, out)
         for ln, ans in zip(lines, answers):
             if ans == "bad-op":
                 continue
             w = [x for x in ln.split(" ") if x]
-            if len(w) < 2 or w[0] not in ("bits", "shp"):
+            if len(w) < 2 or w[0] not in STATELESS or len(ln) > MAX_LINE:
                 continue
             try:
-                c = _bits_candidate(w, ans) if w[0] == "bits" else _shp_candidate(w, ans)
-            except (Unsupported, ValueError, KeyError):
+                c = STATELESS[w[0]](w, ans)
+            except (Unsupported, ValueError, KeyError, IndexError):
+                continue
+            if c is None:
                 continue
             c.source = [(ln, ans)]
-            if c.kind in _FLAT_COST:
-                c.cost = 0.1          # `n` is a bit length / list length there, the statement is cheap whatever it is
-            else:
-                c.cost = small_cost(c.n, 3.0 if c.kind in ("bits.issa", "bits.issam", "bits.supermod") or c.kind.startswith("shp.") else 1.0)
+            if w[0] in ("bits", "shp"):
+                if c.kind in _FLAT_COST:
+                    c.cost = 0.1          # `n` is a bit length / list length there, the statement is cheap whatever it is
+                else:
+                    c.cost = small_cost(c.n, 3.0 if c.kind in ("bits.issa", "bits.issam", "bits.supermod") or c.kind.startswith("shp.") else 1.0)
             out.append(c)
     return out
 
 
 def select(cands: list[Candidate], max_statements: int, budget_s: float = 240.0) -> list[Candidate]:
     """A deterministic sample spread over the statement kinds: duplicates removed; round robin over the kinds (the
-    bound computers first, then the other `tab` / `shp` kinds, then `bits`); inside a kind the largest size first,
+    bound computers first, then the kinds of the other domains, `bits` last); inside a kind the largest size first,
     then evenly spread over the rest; a statement is skipped when its estimated kernel time no longer fits
     into `budget_s` (so that a thorough run stays within its time limit whatever the batches contain)."""
     seen, by_kind = set(), {}
@@ -629,7 +1948,7 @@ def select(cands: list[Candidate], max_statements: int, budget_s: float = 240.0)
         m = len(cs)
         step = next(s for s in (7919, 104729, 1299709) if math.gcd(s, m) == 1) if m > 1 else 1
         order.append([cs[(j * step) % m] for j in range(m)])      # j = 0 is the largest one
-    order.sort(key=lambda p: (0 if p[0].kind.startswith("tab.compute") else 1 if p[0].kind.startswith(("shp", "tab")) else 2,
+    order.sort(key=lambda p: (0 if p[0].kind.startswith("tab.compute") else 2 if p[0].kind.startswith("bits") else 1,
                               p[0].kind))
     sel: list[Candidate] = []
     left = budget_s
@@ -651,22 +1970,29 @@ def statements_from_batches(batches) -> list[str]:
 # ----------------------------------------------------------------------------------------------
 # running Lean
 
-HEADER = ["import ICG.KernelCheck.Basic",
-          "-- generated by harness/kernelcheck.py; do not edit, do not import",
-          "-- every statement: the Lean kernel evaluates the model definitions on an input the compiled driver was given",
-          "-- and finds the output the compiled driver printed (`decide +kernel`: no native code, no interpreter)",
-          "open ICG",
-          "set_option maxRecDepth 100000",
-          "",
-          "theorem kc_start : (2 : Nat) + 2 = 4 := by decide +kernel     -- progress marker: imports are loaded",
-          "#print axioms kc_start",
-          ""]
+MODULES = ("Basic", "Norm", "Store", "Srch", "Gen", "Env", "Rgt", "Codec")      # ICG/KernelCheck/<m>.lean
+
+
+def header(mods) -> list[str]:
+    """the head of a generated file: imports exactly the ICG.KernelCheck modules its statements need"""
+    need = set(mods) | {"Basic"}
+    mods = [m for m in MODULES if m in need]
+    return [f"import ICG.KernelCheck.{m}" for m in mods] + [
+        "-- generated by harness/kernelcheck.py; do not edit, do not import",
+        "-- every statement: the Lean kernel evaluates the model definitions on an input the compiled driver was given",
+        "-- and finds the output the compiled driver printed (`decide +kernel`: no native code, no interpreter)",
+        "open ICG",
+        "set_option maxRecDepth 100000",
+        "",
+        "theorem kc_start : (2 : Nat) + 2 = 4 := by decide +kernel     -- progress marker: imports are loaded",
+        "#print axioms kc_start",
+        ""]
 
 
 def render(named: list[tuple[str, Candidate]], negate: bool = False) -> tuple[str, dict[str, tuple[int, int]]]:
     """the generated file and, per statement name, its (first, last) line number; every statement is followed by its
     `#print axioms`, which is also the progress marker (Lean checks the commands of a file one after the other)"""
-    lines = list(HEADER)
+    lines = header(c.mod for _, c in named)
     spans = {}
     for name, c in named:
         first = len(lines) + 1
@@ -795,10 +2121,11 @@ def check_candidates(cands: list[Candidate], timeout: float = 600.0) -> dict:
     if not cands:
         return res
     import leanside
+    targets = ["ICG.KernelCheck." + m for m in MODULES if m in {c.mod for c in cands} | {"Basic"}]
     with leanside.Lock():
-        p = subprocess.run(["lake", "build", "ICG.KernelCheck.Basic"], cwd=LEAN, capture_output=True, text=True)
+        p = subprocess.run(["lake", "build", *targets], cwd=LEAN, capture_output=True, text=True)
     if p.returncode != 0:
-        res["errors"].append({"what": "lake build ICG.KernelCheck.Basic failed", "log": (p.stdout + p.stderr)[-1500:]})
+        res["errors"].append({"what": f"lake build {' '.join(targets)} failed", "log": (p.stdout + p.stderr)[-1500:]})
         res["wall_s"] = round(time.time() - t0, 2)
         return res
     text, spans = render(named)
@@ -813,6 +2140,7 @@ def check_candidates(cands: list[Candidate], timeout: float = 600.0) -> dict:
             a = res["by_kind"][f"{c.kind} n={c.n}"]
             a["kernel_s"] = round(a["kernel_s"] + dt, 2)
             a["max_s"] = round(max(a["max_s"], dt), 2)
+            c.measured = round(dt, 2)
             prev = name
     rejected: list[tuple[str, Candidate]] = []
     failed, timed = [], []
@@ -944,6 +2272,139 @@ def _own_lines(rnd) -> list[str]:
     return L
 
 
+def _own_lines_more(rnd) -> list[str]:
+    """protocol lines over the domains norm / store / srch / gen / env / rgt / codec (own generator: does not need /repo)"""
+    from common import nlist, rlist, rs
+    L: list[str] = []
+    fr = lambda a, b: Fraction(rnd.randint(a, b), rnd.choice([1, 1, 2, 4, 8]))      # noqa: E731
+    hx = lambda s: s.encode().hex()                                                 # noqa: E731
+    # ---- norm
+    for n in (1, 2, 3, 4, 5, 6):
+        N = 2 ** n
+        v = [Fraction(0)] + [Fraction(bin(c).count("1") ** 2) + fr(0, 9) for c in range(1, N)]
+        add = [sum((Fraction(i + 1, 2) for i in range(n) if c >> i & 1), Fraction(0)) for c in range(N)]     # additive: the guard
+        mat = [fr(0, 9) for _ in range(n * n)]
+        ids = sorted({0, N - 1} | {1 << i for i in range(n)} | {c for c in range(N) if rnd.random() < 0.5})
+        L += [f"norm icg {n} {rlist(v)}", f"norm icg {n} {rlist(add)}", f"norm icg {n} {rlist(v)} 1/1000",
+              f"norm closed {n} {rlist(v)}", f"norm closed {n} {rlist(add)} 1/1000",
+              f"norm icgpart {n} {nlist(ids)} {rlist([v[c] for c in ids])}",
+              f"norm icgpart {n} {nlist(ids[:-1])} {rlist([v[c] for c in ids[:-1]])}",
+              f"norm denorm {n} {rs(fr(1, 9))} {rlist([fr(0, 5) for _ in range(n)])} {rlist(v)}",
+              f"norm denorm {n} 2 {rlist([fr(0, 5) for _ in range(n - 1)])} {rlist(v)}",
+              f"norm graph {n} {rlist(mat)}", f"norm gtable {n} {rlist(mat)}", f"norm gdenorm {n} {rs(fr(1, 9))} {rlist(mat)}"]
+    # ---- store (C19)
+    tok = lambda k: "h" + "".join(rnd.choice("0123456789abcdef") for _ in range(k))     # noqa: E731
+    def entry():
+        r, c = rnd.randint(1, 2), rnd.randint(1, 3)
+        cells = ",".join(rnd.choice(["nan", "f" + tok(15)[1:], "i" + str(rnd.randint(0, 40))]) for _ in range(r * c))
+        meta = ",".join(f"{tok(6)}={tok(rnd.choice([4, 12, 60]))}" for _ in range(rnd.randint(0, 3))) or "-"
+        return f"{r}x{c}:{cells};1x{r}:{','.join('i' + str(rnd.randint(0, 30)) for _ in range(r))};{meta}"
+    for s_ in ("s1", "s2"):
+        names = [tok(rnd.choice([8, 30, 90])) for _ in range(4)]
+        L.append(f"store reset {s_}")
+        for step in range(10):
+            nm = rnd.choice(names)
+            L += [f"store save {s_} {nm} {entry()}", f"store lookup {s_} {rnd.choice(names)}"]
+            if step % 3 == 2:
+                L += [f"store names {s_}", f"store dump {s_}"]
+        L += [f"store lookup {s_} {tok(5)}", f"store dump {s_}"]
+    # ---- store (C20)
+    old, new = hx('{"a": 1}'), hx('{"a": 1, "b": [2.5, NaN]}')
+    t = "data.json"
+    L += [f"store crash {t} {t}={old} or:{t} c:{t} ot:{t}.tmp w:{t}.tmp:{new[:10]} w:{t}.tmp:{new[10:]} fs:{t}.tmp c:{t}.tmp mv:{t}.tmp:{t}",
+          f"store crash {t} {t}={old} or:{t} c:{t} ot:{t} w:{t}:{new[:10]} w:{t}:{new[10:]} c:{t}",
+          f"store crash {t} - ox:{t}.tmp w:{t}.tmp:{new} c:{t}.tmp mv:{t}.tmp:{t} rm:{t}.tmp",
+          f"store crash {t} {t}={old},{t}.tmp={hx('stale')} ot:{t}.tmp w:{t}.tmp:{new} c:{t}.tmp mv:{t}.tmp:{t} w:{t}.tmp:{hx('x')}",
+          f"store crash {t} {t}={old} or:{t} c:{t}", f"store crash {t} {t}={old} rm:{t} ok:{t} w:{t}:{new} x:{t}",
+          f"store crash {t} {t}={tok(3000)[1:]}{'61' * 300} ot:{t}.tmp w:{t}.tmp:{tok(3000)[1:]}{'62' * 300} c:{t}.tmp mv:{t}.tmp:{t}"]
+    # ---- srch
+    for n, reps in ((3, 2), (4, 1)):
+        N = 2 ** n
+        start = sorted({0, N - 1} | {1 << i for i in range(n)})
+        unk = [c for c in range(N) if c not in start]
+        if n == 4:
+            unk = unk[:4]
+            start = [c for c in range(N) if c not in unk]
+        g = f"g{n}"
+        L.append(f"srch gt new {g} {n} {reps}")
+        for m in range(2 ** len(unk)):
+            ks = start + [u for i, u in enumerate(unk) if m >> i & 1]
+            L.append(f"srch gt put {g} {nlist(ks)} {rlist([fr(0, 40) + (len(unk) - bin(m).count('1')) for _ in range(reps)])}")
+        L += [f"srch seqs {nlist(unk)} none", f"srch seqs {nlist(unk)} 2", f"srch chunks {2 ** len(unk)} 2", "srch chunks 9 0",
+              f"srch expl {g} 1 {nlist(start)} none 2 0", f"srch expl {g} {reps} {nlist(start)} 2 1 7",
+              f"srch stack {g} {nlist(start)} {nlist(unk[:2])} 1 5", f"srch best {g} {nlist(start)} 2 1",
+              f"srch meta {g} 1 3 7", f"srch meta {g} 1 {2 ** 12} 0",
+              f"srch greedy {g} {nlist(start)} {nlist(unk)} 1 1 {nlist(unk)};{nlist(unk[1:])}",
+              f"srch greedy {g} {nlist(start)} {nlist(unk)} 1 1 {nlist(unk[1:])};-"]
+    L += ["srch evalone 3 -7/2 -3:0:13;-5/2:0:14;-1:1:3", "srch evalone 4 -1 -1/2:0:5;-1/4:1:6", "srch evalone 2 -1 -",
+          "srch pooldraws 2 2 5 1", "srch pooldraws 2 2 5 2", "srch pooldraws 3 1 4 0"]
+    # ---- gen
+    for n in (3, 4, 5):
+        N = 2 ** n
+        ws = [fr(1, 9) for _ in range(n)]
+        L += [f"gen factory {n} 1 {rlist(ws)} id", f"gen factory {n} 0 {rlist(ws)} sq", f"gen factory {n} 2 {rlist([1] * n)} one",
+              f"gen predowner {n - 1} {n}", f"gen cheerpick 1 1,1,{n - 1},0", "gen cheerpick 2 2,2", f"gen cheer {n} 0 1",
+              f"gen cheerkey {n} 0 1", f"gen cheernext {n} {n - 1}", f"gen graph {n} {rlist([fr(0, 9) for _ in range(n * n)])}",
+              f"gen cycle {nlist(rnd.sample(range(n), n))}", f"gen additive {n} {rlist(ws)}",
+              f"gen xos {n} 3 {rlist([fr(1, 9) for _ in range(3 * n)])} 1 1", f"gen xos {n} 2 {rlist([fr(1, 9) for _ in range(2 * n)])} 0 0",
+              f"gen xos {n} 0 - 1 0", f"gen xs {n} {rlist(ws)}", f"gen xsud {n} 0,1,0 {rlist([fr(1, 9) for _ in range(3)])}",
+              f"gen kbudget {n} 2", f"gen coverage {n} 2 {nlist([rnd.randrange(1, 2 ** (2 * n) - 1) for _ in range(n)])}",
+              f"gen coverage {n} 1 {nlist(range(n - 1))}"]
+        if n <= 4:
+            a_ = [Fraction(0)] + [-fr(1, 9) for _ in range(N - 1)]
+            b_ = [Fraction(0)] + [-fr(1, 9) for _ in range(N - 1)]
+            L += [f"gen applyor {n} {rlist(a_)} {rlist(b_)}", f"gen oxs {n} 3 {rlist([fr(1, 9) for _ in range(3 * n)])} 1", f"gen oxs {n} 0 - 0"]
+    # ---- env: the model's own computers and gap (`sa l1`), then an oracle-fed one (`ext ext`)
+    for n, comp in ((3, "sa"), (3, "sam:1"), (4, "sac")):
+        N = 2 ** n
+        e = f"e{n}{comp[:3]}"
+        full = [Fraction(0)] + [Fraction(bin(c).count("1") ** 2 * 2) + fr(0, 3) for c in range(1, N)]
+        norm = [x / full[-1] for x in full]
+        init = nlist([0, N - 1] + [1 << i for i in range(n)])
+        L += [f"env new {e} {n} {comp} l1 2 {init} {rlist(full)} {rlist(norm)}", f"env info {e}", f"env snap {e}", f"env mask {e}",
+              f"env step {e} 0", f"env state {e}", f"env reward {e}", f"env done {e}", f"env steps {e}", f"env snap {e}",
+              f"env solve {e} largest", f"env random {e} 1", f"env step {e} -1", f"env step {e} 0", f"env dump {e}", f"env snap {e}",
+              f"env unstep {e} 0", f"env linsizes {e}", f"env linmask {e}", f"env linstate {e}", f"env lincands {e} 2", f"env snap {e}",
+              f"env linstep {e} 2 1", f"env linstep {e} {n} 0", f"env step {e} 99", f"env snap {e}",
+              f"env reset {e} {rlist(full[::-1][:1] * 0 + full)} {rlist(norm)}", f"env snap {e}"]
+        if n == 3:
+            L += [f"env solve {e} greedy", f"env solve {e} greedy_worst", f"env snap {e}"]
+        L += [f"env linreset {e} {rlist(full)} {rlist(norm)}", f"env snap {e}", f"env drop {e}"]
+    K0 = "11101001"
+    lo0, up0 = "0,1,1,2,1,2,2,5", "0,1,1,4,1,4,4,5"
+    L += [f"env oracle x1 {K0} {lo0} {up0} 6", f"env oracle x1 11111001 0,1,1,3,1,2,2,5 0,1,1,3,1,4,4,5 4",
+          "env oracle x1 11101101 err:value - err:value", "env new x1 3 ext ext none 0,7,1,2,4 0,1,1,3,1,3,3,5 0,1/5,1/5,3/5,1/5,3/5,3/5,1",
+          "env info x1", "env snap x1", "env step x1 0", "env snap x1", "env unstep x1 0", "env step x1 1", "env snap x1", "env step x1 2",
+          "env snap x1", "env oracle-clear x1", "env reward x1", "env snap x1", "env drop x1"]
+    # ---- rgt
+    L += ["rgt cup 3 2", "rgt cup 10 3", "rgt metaids 3 2", "rgt metaids 4 2", "rgt pidmap 3", "rgt pidmap 4", "rgt new r0 1 1 0",
+          "rgt new r1 3 2 0", "rgt info r1", "rgt ranks r1", "rgt table r1", "rgt metaid r1 3,5", "rgt metaid r1 7,3", "rgt strategy r1 0",
+          "rgt strategy r1 99", "rgt strategyc r1 3", "rgt avg r1 3", "rgt regret r1", "rgt cumstrat r1",
+          "rgt iter r1 1,2,3 3,5;3,6;5,6", "rgt regret r1", "rgt cumstrat r1", "rgt strategy r1 1", "rgt avg r1 5",
+          "rgt iter r1 3/2,1/4,2 3,5;3,6;5,6", "rgt regret r1", "rgt cumstrat r1", "rgt saveload r1 r2", "rgt info r2",
+          "rgt iter r2 1 3,5", "rgt regret r2", "rgt cumstrat r2", "rgt strategyc r2 5",
+          "rgt new r3 3 2 1 7 2", "rgt iter r3 1,2,3 3,5;3,6;5,6", "rgt iter r3 2,2,1 3,5;3,6;5,6", "rgt regret r3", "rgt cumstrat r3",
+          "rgt avg r3 -", "rgt new r4 4 1 1", "rgt new r4 4 1 1 513 1", "rgt info r4", "rgt iter r4 1,2,3,4,5,6,7,8,9,10 3;5;6;7;9;10;11;12;13;14", "rgt regret r4",
+          "rgt cumstrat r4", "rgt strategyc r4 -", "rgt avg r4 -", "rgt new r5 4 2 0 769 2", "rgt iter r5 1,2,3 3,5;3,6;5,6",
+          "rgt regret r5", "rgt cumstrat r5", "rgt iter r5 3,1,2 3,5;3,6;5,6", "rgt avg r5 3", "rgt strategyc r5 3,5"]
+    # ---- codec
+    func = "A" + hx("func") + " O" + hx("<function eval_func at 0x7f>")
+    seed = "A" + hx("seed") + " i5"
+    misc = "A" + hx("misc") + " { ks" + hx("k") + " ( i1 F1/2 N ) ki7 [ t f ] kN P" + hx("/x/y") + " }"
+    entry_json = ("{ k" + hx("data") + " [ [ i1 F1/2 ] [ n t ] ] k" + hx("actions") + " [ i2 i3 ] k" + hx("metadata")
+                  + " { k" + hx("run_type") + " s" + hx("eval") + " k" + hx("seed") + " i5 } }")
+    L += [f"codec tree f:1x2:F1,F-0 i:1x1:i3 {func} {seed} {misc}", f"codec saveload f:1x2:F1,F-0 i:1x1:i3 {func} {seed} {misc}",
+          f"codec tree f:1x2:F1,F2 i:1x1:i3 {seed}", f"codec saveload f:2x1:Fnan,Finf o:1x2:n,i4 {func} A" + hx("k") + " { kO i1 }",
+          f"codec load {entry_json}", "codec load { k" + hx("data") + " [ ] }", f"codec outputs {{ k{hx('run-0')} {entry_json} k{hx('run-1')} {entry_json} }}",
+          "codec outputs { }", "codec nparray f [ [ i1 n ] [ t F1/2 ] ]", "codec nparray f [ [ i1 ] [ i2 i3 ] ]", "codec nparray a [ i1 i2 t ]",
+          "codec nparray a [ ]", "codec nparray a [ i1 n ]", f"codec nparray f [ i{10 ** 400} ]", f"codec nparray f [ i{2 ** 60 + 1} ]",
+          "codec nparray a [ s" + hx("x") + " ]", "codec tolist f:2x2:F1,F2,Fnan,F-0", "codec tolist i:-:i7", "codec tolist f:2x0:-", "codec tolist f:2x2:F1",
+          "codec reload { k" + hx("a") + " i1 k" + hx("b") + " [ { k" + hx("a") + " n } ] k" + hx("a") + " i2 }",
+          "codec dumps { ki1 s" + hx("one") + " ks" + hx("1") + " s" + hx("uno") + " kN [ ( i1 ) P" + hx("/x") + " ] kF" + hx("1.5") + " t }",
+          "codec dumps { kO i1 }", "codec stringify ( i1 { kt N kf [ F-inf s" + hx("ü中") + " ] } )", "codec stringify O" + hx("<object>")]
+    return L
+
+
 def _flip_digit(ans: str) -> str:
     """change the last decimal digit of an answer line"""
     for i in range(len(ans) - 1, -1, -1):
@@ -972,6 +2433,35 @@ def _summary(tag: str, r: dict) -> None:
         print("    ERROR", e)
 
 
+STREAMS = (("corr_bounds", "C02"), ("corr_bits", "C18"), ("corr_shapley", "C05"), ("corr_normalize", "C15"),
+           ("corr_store", "C19"), ("corr_store", "C20"), ("corr_search", "C11"), ("corr_search", "C12"),
+           ("corr_search", "C13greedy"), ("corr_generators", "C10"), ("corr_env", "C09"), ("corr_env", "C13"),
+           ("corr_env", "C16"), ("corr_regret", "C14"), ("corr_codec", "C19"))
+# one statement kind per domain (and per interesting operation) for the non-vacuity demonstration
+DEMO_KINDS = ("tab.compute.sa", "tab.compute.sac", "tab.compute.sam", "shp.shapley", "shp.expl", "bits.subobj", "bits.struct",
+              "norm.icg", "norm.graph", "norm.denorm", "store.ops", "store.crash", "srch.expl", "srch.best", "srch.greedy",
+              "srch.evalone", "gen.xos", "gen.oxs", "gen.coverage", "env.step", "env.solve", "env.lin", "rgt.iter", "rgt.metaids",
+              "codec.saveload", "codec.nparray.f", "codec.dumps")
+
+
+def corrupt(batches, c: Candidate):
+    """flip the last decimal digit of the answer to the last protocol line `c` was made of; returns (line, answer, flipped
+    answer, the statement made of the corrupted batch) or None when that cannot be done unambiguously"""
+    ln, ans = c.source[-1]
+    if "err:" in ans or not any(ch.isdigit() for ch in ans):
+        return None
+    for bi, (lines, answers) in enumerate(batches):
+        hits = [i for i, (x, y) in enumerate(zip(lines, answers)) if x == ln and y == ans]
+        if len(hits) != 1:
+            continue
+        an2 = list(answers)
+        an2[hits[0]] = _flip_digit(ans)
+        cc = [x for x in candidates_from_batches([(lines, an2)]) if x.kind == c.kind and x.source and x.source[-1] == (ln, an2[hits[0]])]
+        if len(cc) == 1 and cc[0].prop != c.prop:
+            return ln, ans, an2[hits[0]], cc[0]
+    return None
+
+
 def main(argv: list[str]) -> int:
     import argparse
     import importlib
@@ -980,69 +2470,73 @@ def main(argv: list[str]) -> int:
     ap.add_argument("--max", type=int, default=40, help="statements per check")
     ap.add_argument("--timeout", type=float, default=600.0)
     ap.add_argument("--no-streams", action="store_true", help="own generator only (do not import the correspondence streams)")
+    ap.add_argument("--streams", default="", help="comma separated stream modules to run (default: all), e.g. corr_store,corr_env")
+    ap.add_argument("--stream-budget", type=float, default=25.0, help="seconds per stream")
     ap.add_argument("--seed", type=int, default=common.SEED)
     args = ap.parse_args(argv)
     rnd = random.Random(f"kernelcheck:{args.seed}")
     bad = 0
 
-    # 1. own generator -> compiled driver -> statements -> kernel
-    lines = _own_lines(rnd)
-    common.DRIVER_SAMPLES.clear()
-    outs = common.run_driver(lines)
-    own = list(common.DRIVER_SAMPLES)
-    assert own and own[0][1] == outs[:3000]
-    nbad = sum(1 for o in outs if o == "bad-op")
+    # 1. own generator -> compiled driver -> statements -> kernel: one statement of every kind at least
+    own = []
+    for lines in (_own_lines(rnd), _own_lines_more(rnd)):
+        common.DRIVER_SAMPLES.clear()
+        outs = common.run_driver(lines)
+        own += list(common.DRIVER_SAMPLES)
+        assert own[-1][1] == outs[:3000]
+        nbad = sum(1 for o in outs if o == "bad-op")
+        print(f"own generator: {len(lines)} protocol lines through {common.DRIVER_EXE} ({nbad} bad-op)")
     cands = candidates_from_batches(own)
-    print(f"own generator: {len(lines)} protocol lines through {common.DRIVER_EXE} ({nbad} bad-op), "
-          f"{len(cands)} statements can be made, {len({c.kind for c in cands})} kinds")
-    r = check(own, args.max, args.timeout)
+    kinds = {c.kind for c in cands}
+    print(f"{len(cands)} statements can be made, {len(kinds)} kinds, domains {sorted({k.split('.')[0] for k in kinds})}")
+    r = check(own, max(args.max, len(kinds) + 10), max(args.timeout, 900.0))
     _summary("own", r)
     bad += (not r["ok"]) or r["proved"] != r["statements"] or r["statements"] == 0
 
     # 2. the correspondence streams' own batches, as the thorough tier will record them
     if not args.no_streams:
-        for mod, arg in (("corr_bounds", "C02"), ("corr_bits", "C18"), ("corr_shapley", "C05")):
+        want = {x for x in args.streams.split(",") if x}
+        for mod, arg in STREAMS:
+            if want and mod not in want:
+                continue
             try:
                 m = importlib.import_module(mod)
                 common.DRIVER_SAMPLES.clear()
-                sr = m.run("quick", common.Budget(20), common.rng(f"kernelcheck:{mod}"), arg)
+                sr = m.run("quick", common.Budget(args.stream_budget), common.rng(f"kernelcheck:{mod}"), arg)
             except Exception as e:      # noqa: BLE001
-                print(f"[{mod}] stream not run: {type(e).__name__}: {e}")
+                print(f"[{mod}/{arg}] stream not run: {type(e).__name__}: {e}")
                 continue
             batches = list(common.DRIVER_SAMPLES)
             print(f"{mod}({arg}): {sr.evaluations} cases, {len(sr.disagreements)} disagreements, "
                   f"{len(batches)} recorded batch(es), {sum(len(b[0]) for b in batches)} lines")
-            r = check(batches, args.max, args.timeout)
-            _summary(mod, r)
+            r = check(batches, args.max, 300.0)
+            _summary(f"{mod}/{arg}", r)
+            print(f"    {r['candidates']} statements could be made of the batches")
             bad += (not r["ok"]) or r["proved"] != r["statements"] or r["statements"] == 0
 
     # 3. not vacuous: flip one digit of an observed answer -> the kernel must refute exactly that statement
-    picks = {}
-    for c in cands:
-        if c.kind not in ("tab.compute.sa", "tab.compute.sac", "tab.compute.sam", "shp.shapley", "shp.expl", "bits.subobj",
-                          "bits.struct") or c.kind in picks or c.replay() is None or c.n not in (3, 4):
-            continue
-        if "err:" in c.source[-1][1] or not c.source[-1][0].startswith(("tab dump", "shp", "bits")):
-            continue
-        picks[c.kind] = c
     corrupted, originals = [], []
-    for fam, c in sorted(picks.items()):
-        ls, an = c.replay()
-        j = len(an) - 1
-        an2 = list(an)
-        an2[j] = _flip_digit(an[j])
-        cc = [x for x in candidates_from_batches([(ls, an2)]) if x.kind == c.kind]
-        if len(cc) != 1:
-            print(f"corruption demo: could not rebuild {c.kind}")
+    for kind in DEMO_KINDS:
+        done = False
+        for c in [c for c in cands if c.kind == kind and c.cost < 20][:8]:
+            got = corrupt(own, c)
+            if got is None:
+                continue
+            ln, ans, ans2, cc = got
+            print(f"corrupting [{c.kind} n={c.n}]  {ln[:110]}\n     observed: {ans[-110:]}\n     flipped : {ans2[-110:]}")
+            corrupted.append(cc)
+            originals.append(c)
+            done = True
+            break
+        if not done:
+            print(f"corruption demo: no statement of kind {kind} could be corrupted")
             bad += 1
-            continue
-        print(f"corrupting [{c.kind} n={c.n}]  {ls[j][:120]}\n     observed: {an[j][:160]}\n     flipped : {an2[j][:160]}")
-        corrupted.append(cc[0])
-        originals.append(c)
-    r = check_candidates(originals + corrupted, args.timeout)
+    r = check_candidates(originals + corrupted, max(args.timeout, 900.0))
+    r["failed"] = []          # listed one by one below
     _summary("corrupted", r)
     ok_demo = r["proved"] == len(originals) and r["refuted"] == len(corrupted) and r["n_failed"] == len(corrupted) and corrupted
-    print("corruption demo:", "every flipped answer was refuted by the kernel, every original proved" if ok_demo else "UNEXPECTED")
+    print(f"corruption demo: {len(originals)} originals, {r['proved']} proved; {len(corrupted)} flipped answers, {r['refuted']} refuted by the kernel:",
+          "as expected" if ok_demo else "UNEXPECTED")
     bad += not ok_demo
     print("self-test", "FAILED" if bad else "passed")
     return 1 if bad else 0
